@@ -260,7 +260,7 @@ Proof.
     intros n v fs Hn Hv IHv Hfs IHfs fv g r Hfv Hg Hr. destruct g as [|g]; [lia|].
     destruct Hn as [nv].
     cbn [flat_map length toks_object_field toks_name] in *. rewrite app_length in Hfv.
-    cbn [app length] in Hfv. rewrite app_length in Hfv.
+    cbn [app length] in Hfv.
     cbn [until_close app]. rewrite <- app_assoc.
     eapply run_bind; [apply run_eot_no; reflexivity|]. cbv iota.
     eapply run_bind.
@@ -273,4 +273,1869 @@ Proof.
       apply IHv; [lia|].
       destruct Hfs as [|n' v' fs' Hn' Hv' Hfs']; [reflexivity|]. destruct Hn' as [nv']. reflexivity. }
     eapply run_bind; [apply IHfs; [lia|lia|exact Hr]|]. apply run_ret.
+Qed.
+
+Lemma rt_value c v r f : wf_value c v -> length (toks_value v) <= f -> hk nle r ->
+  run (value 0 f c) (toks_value v ++ r) v r.
+Proof. intros W. apply (proj1 (rt_value_all c) v W). Qed.
+
+Lemma rt_value_literal c v r : wf_value c v -> hk nle r ->
+  run (value_literal 0 c) (toks_value v ++ r) v r.
+Proof.
+  intros W Hr. unfold value_literal. apply run_with_fuel. apply rt_value; [exact W| |exact Hr].
+  rewrite app_length. lia.
+Qed.
+
+(* first-token conditions of the form "kind not in ks" *)
+Definition avoids (first : N -> bool) (ks : list N) : bool := forallb (fun k => negb (first k)) ks.
+
+Lemma avoids_nk first ks k x : avoids first ks = true -> first k = true -> nk ks (k, x) = true.
+Proof.
+  unfold avoids, nk. intros H Hk. cbn [fst]. apply negb_true_iff.
+  destruct (existsb (N.eqb k) ks) eqn:E; [|reflexivity].
+  apply existsb_exists in E as (k' & Hin & Hk'). apply N.eqb_eq in Hk'. subst k'.
+  rewrite forallb_forall in H. apply H in Hin. rewrite Hk in Hin. discriminate.
+Qed.
+
+Lemma hk_value_nk c v r ks : wf_value c v -> avoids first_of_value ks = true -> hk (nk ks) (toks_value v ++ r).
+Proof. intros W H. eapply hk_value; [exact W|]. intros k x Hk. eapply avoids_nk; eauto. Qed.
+
+Lemma hk_name_nk n r ks : wf_name n -> avoids (N.eqb K_NAME) ks = true -> hk (nk ks) (toks_name n ++ r).
+Proof. intros [v] H. unfold hk. cbn [toks_name app tok_at]. eapply avoids_nk; [exact H|]. apply N.eqb_refl. Qed.
+
+Ltac norm := repeat (first [rewrite <- app_assoc | progress cbn [app]]).
+Lemma incl_cons_self (c : N) (ks : list N) :
+  forallb (fun k => existsb (N.eqb k) (c :: ks)) ks = true.
+Proof.
+  apply forallb_forall. intros k Hin. cbn [existsb]. apply orb_true_iff. right.
+  apply existsb_exists. exists k. split; [exact Hin|apply N.eqb_refl].
+Qed.
+
+Ltac len_norm H := repeat (first [rewrite app_length in H | progress cbn [length app] in H]).
+
+(* ---------- types ---------- *)
+Definition first_of_type (k : N) : bool := existsb (N.eqb k) [K_NAME; K_BRACKET_L].
+
+Lemma hk_type_nk t r ks : wf_type t -> avoids first_of_type ks = true -> hk (nk ks) (toks_type t ++ r).
+Proof.
+  intros W H. unfold hk.
+  destruct W as [n [v]|t W|n [v]|t W]; cbn [toks_type toks_name app tok_at];
+    (eapply avoids_nk; [exact H|reflexivity]).
+Qed.
+
+Lemma toks_type_nonempty t : wf_type t -> 1 <= length (toks_type t).
+Proof.
+  intros W. destruct W as [n [v]|t W|n [v]|t W]; cbn [toks_type toks_name length app]; lia.
+Qed.
+
+Definition fol_type : list N := [K_LEXERR; K_BANG].
+
+Lemma rt_type_ref t : wf_type t ->
+  forall f r, length (toks_type t) <= f -> hk (nk fol_type) r -> run (type_ref 0 f) (toks_type t ++ r) t r.
+Proof.
+  intros W. induction W as [n [v]|t W IH|n [v]|t W IH]; intros f r Hf Hr;
+    (destruct f as [|f]; [cbn [toks_type toks_name length app] in Hf; try rewrite app_length in Hf; cbn in Hf; lia|]).
+  - cbn [toks_type toks_name app type_ref].
+    eapply run_bind; [apply run_eot_no; reflexivity|]. cbv iota.
+    eapply run_bind.
+    { unfold named_type. eapply run_bind; [apply run_name|apply run_ret].
+      eapply hk_nk_incl; [|exact Hr]. reflexivity. }
+    eapply run_bind; [apply run_eot_no; apply (hk_neq fol_type); [exact Hr|reflexivity]|]. apply run_ret.
+  - cbn [toks_type app type_ref]. cbn [toks_type] in Hf. len_norm Hf.
+    norm.
+    eapply run_bind.
+    { apply run_eot_yes; [reflexivity|]. apply hk_type_nk; [exact W|reflexivity]. }
+    cbv iota. eapply run_bind.
+    { eapply run_bind; [apply IH; [lia|reflexivity]|].
+      eapply run_bind; [apply run_expect_token; [reflexivity|]|apply run_ret].
+      eapply hk_nk_incl; [|exact Hr]. reflexivity. }
+    eapply run_bind; [apply run_eot_no; apply (hk_neq fol_type); [exact Hr|reflexivity]|]. apply run_ret.
+  - cbn [toks_type toks_name app type_ref].
+    eapply run_bind; [apply run_eot_no; reflexivity|]. cbv iota.
+    eapply run_bind.
+    { unfold named_type. eapply run_bind; [apply run_name; reflexivity|apply run_ret]. }
+    eapply run_bind; [apply run_eot_yes; [reflexivity|]|apply run_ret].
+    eapply hk_nk_incl; [|exact Hr]. reflexivity.
+  - cbn [toks_type app type_ref]. cbn [toks_type] in Hf. len_norm Hf.
+    norm.
+    eapply run_bind.
+    { apply run_eot_yes; [reflexivity|]. apply hk_type_nk; [exact W|reflexivity]. }
+    cbv iota. eapply run_bind.
+    { eapply run_bind; [apply IH; [lia|reflexivity]|].
+      eapply run_bind; [apply run_expect_token; [reflexivity|reflexivity]|apply run_ret]. }
+    eapply run_bind; [apply run_eot_yes; [reflexivity|]|apply run_ret].
+    eapply hk_nk_incl; [|exact Hr]. reflexivity.
+Qed.
+
+Lemma rt_type_reference t r : wf_type t -> hk (nk fol_type) r ->
+  run (type_reference 0) (toks_type t ++ r) t r.
+Proof.
+  intros W Hr. unfold type_reference. apply run_with_fuel. apply rt_type_ref; [exact W| |exact Hr].
+  rewrite app_length. lia.
+Qed.
+
+Lemma rt_named_type t r : wf_named_type t -> hk nle r -> run (named_type 0) (toks_type t ++ r) t r.
+Proof.
+  intros [n [v]] Hr. cbn [toks_type toks_name app]. unfold named_type.
+  eapply run_bind; [apply run_name; exact Hr|apply run_ret].
+Qed.
+
+Lemma hk_named_type_nk t r ks : wf_named_type t -> avoids (N.eqb K_NAME) ks = true -> hk (nk ks) (toks_type t ++ r).
+Proof. intros [n W] H. cbn [toks_type]. apply hk_name_nk; assumption. Qed.
+
+(* ---------- generic list loops over Forall ---------- *)
+Section Loops.
+Variable p : P node.
+Variable toksI : node -> list sigtok.
+Variable Pn : node -> Prop.
+Variable fol : list N.          (* what must not follow an item *)
+Hypothesis fol_lexerr : existsb (N.eqb K_LEXERR) fol = true.
+Hypothesis item_rt : forall x r, Pn x -> hk (nk fol) r -> run p (toksI x ++ r) x r.
+
+Lemma fol_nle l : hk (nk fol) l -> hk nle l.
+Proof.
+  apply hk_nk_incl. cbn [forallb]. rewrite fol_lexerr. reflexivity.
+Qed.
+
+Section Close.
+Variable close : N.
+Hypothesis close_ne : (close =? K_EOF)%N = false.
+Hypothesis item_first : forall x r, Pn x -> hk (nk (close :: fol)) (toksI x ++ r).
+Hypothesis close_fol : nk fol (close, []) = true.
+
+Lemma item_nonempty x : Pn x -> 1 <= length (toksI x).
+Proof.
+  intros Hx. pose proof (item_first x [pt close] Hx) as H.
+  destruct (toksI x); [|cbn; lia]. exfalso. unfold hk, nk in H. cbn in H.
+  rewrite N.eqb_refl in H. discriminate.
+Qed.
+
+Lemma flat_map_length_ge l : Forall Pn l -> length l <= length (flat_map toksI l).
+Proof.
+  induction 1 as [|x l Hx Hl IH]; cbn [flat_map length]; [lia|].
+  rewrite app_length. pose proof (item_nonempty x Hx). lia.
+Qed.
+
+Lemma hk_items ks l r :
+  Forall Pn l -> forallb (fun k => existsb (N.eqb k) (close :: fol)) ks = true ->
+  hk (nk ks) (pt close :: r) -> hk (nk ks) (flat_map toksI l ++ pt close :: r).
+Proof.
+  intros Hl Hks Hr. destruct Hl as [|x l Hx Hl]; [exact Hr|].
+  cbn [flat_map]. rewrite <- app_assoc. eapply hk_nk_incl; [exact Hks|]. apply item_first. exact Hx.
+Qed.
+
+Lemma rt_until_close l : Forall Pn l -> forall g r, length l < g -> hk nle r ->
+  run (until_close 0 g close p) (flat_map toksI l ++ pt close :: r) l r.
+Proof.
+  induction 1 as [|x l Hx Hl IH]; intros g r Hg Hr; (destruct g as [|g]; [cbn in Hg; lia|]).
+  - cbn [flat_map app until_close].
+    eapply run_bind; [apply run_eot_yes; [exact close_ne|exact Hr]|]. apply run_ret.
+  - cbn [flat_map until_close]. rewrite <- app_assoc.
+    eapply run_bind.
+    { apply run_eot_no. apply (hk_neq (close :: fol)); [apply item_first; exact Hx|].
+      cbn [existsb]. rewrite N.eqb_refl. reflexivity. }
+    cbv iota. eapply run_bind.
+    { apply item_rt; [exact Hx|].
+      apply hk_items; [exact Hl| |exact close_fol].
+      apply incl_cons_self. }
+    eapply run_bind; [apply IH; [cbn in Hg; lia|exact Hr]|]. apply run_ret.
+Qed.
+
+Lemma rt_loop_close l r : Forall Pn l -> hk nle r ->
+  run (loop_close 0 close p) (flat_map toksI l ++ pt close :: r) l r.
+Proof.
+  intros Hl Hr. unfold loop_close. apply run_with_fuel. apply rt_until_close; [exact Hl| |exact Hr].
+  rewrite app_length. pose proof (flat_map_length_ge l Hl). cbn [length]. lia.
+Qed.
+
+Variable open : N.
+Hypothesis open_ne : (open =? K_EOF)%N = false.
+
+Definition attr_list (a : attr) : option (list node) :=
+  match a with AList l => Some l | _ => None end.
+
+Lemma rt_optional_many_gen a r :
+  wf_nelist Pn a -> hk nle r -> (is_block a = false -> hk (nk [open]) r) ->
+  run (optional_many 0 open p close) (toks_block open toksI close a ++ r) (attr_list a) r.
+Proof.
+  intros W Hr Ho. destruct W as [|x l Hx Hl].
+  - cbn [toks_block app attr_list]. unfold optional_many.
+    eapply run_bind; [apply run_eot_no; apply (hk_neq [open]); [exact (Ho eq_refl)|]|apply run_ret].
+    cbn [existsb]. rewrite N.eqb_refl. reflexivity.
+  - cbn [toks_block attr_list flat_map]. norm. unfold optional_many.
+    eapply run_bind.
+    { apply run_eot_yes; [exact open_ne|]. apply fol_nle. eapply hk_nk_incl; [|apply (item_first x); exact Hx].
+      apply incl_cons_self. }
+    cbv iota. eapply run_bind.
+    { apply item_rt; [exact Hx|].
+      apply hk_items; [exact Hl| |exact close_fol].
+      apply incl_cons_self. }
+    eapply run_bind; [apply rt_loop_close; [exact Hl|exact Hr]|apply run_ret].
+Qed.
+
+Lemma rt_optional_many a r :
+  wf_nelist Pn a -> hk (nk [K_LEXERR; open]) r ->
+  run (optional_many 0 open p close) (toks_block open toksI close a ++ r) (attr_list a) r.
+Proof.
+  intros W Hr. apply rt_optional_many_gen; [exact W| |intros _].
+  - eapply hk_nk_incl; [|exact Hr]. reflexivity.
+  - eapply hk_nk_incl; [|exact Hr]. cbn [forallb existsb]. rewrite N.eqb_refl. rewrite orb_true_r. reflexivity.
+Qed.
+
+Lemma rt_many x l r :
+  Pn x -> Forall Pn l -> hk nle r ->
+  run (many 0 open p close) (pt open :: flat_map toksI (x :: l) ++ pt close :: r) (x :: l) r.
+Proof.
+  intros Hx Hl Hr. unfold many. cbn [flat_map]. rewrite <- app_assoc.
+  eapply run_bind.
+  { apply run_expect_token; [exact open_ne|]. apply fol_nle. eapply hk_nk_incl; [|apply (item_first x); exact Hx].
+    apply incl_cons_self. }
+  eapply run_bind.
+  { apply item_rt; [exact Hx|].
+    apply hk_items; [exact Hl| |exact close_fol].
+    apply incl_cons_self. }
+  eapply run_bind; [apply rt_loop_close; [exact Hl|exact Hr]|apply run_ret].
+Qed.
+
+End Close.
+End Loops.
+
+Section Loops2.
+Variable p : P node.
+Variable toksI : node -> list sigtok.
+Variable Pn : node -> Prop.
+Variable fol : list N.
+Hypothesis fol_lexerr : existsb (N.eqb K_LEXERR) fol = true.
+Hypothesis item_rt : forall x r, Pn x -> hk (nk fol) r -> run p (toksI x ++ r) x r.
+
+(* while peek(k): every item starts with the punctuator k *)
+Section While.
+Variable k : N.
+Hypothesis item_starts : forall x, Pn x -> exists tl, toksI x = pt k :: tl.
+Hypothesis k_fol : nk fol (k, []) = true.
+
+Lemma hk_while_items ks l r :
+  Forall Pn l -> nk ks (k, []) = true -> hk (nk ks) r -> hk (nk ks) (flat_map toksI l ++ r).
+Proof.
+  intros Hl Hk Hr. destruct Hl as [|x l Hx Hl]; [exact Hr|].
+  cbn [flat_map]. destruct (item_starts x Hx) as [tl ->]. exact Hk.
+Qed.
+
+Lemma rt_while_peek l : Forall Pn l -> forall g r, length l < g -> hk (nk (k :: fol)) r ->
+  run (while_peek g k p) (flat_map toksI l ++ r) l r.
+Proof.
+  induction 1 as [|x l Hx Hl IH]; intros g r Hg Hr; (destruct g as [|g]; [cbn in Hg; lia|]).
+  - cbn [flat_map app while_peek]. apply run_cur.
+    assert (E : (kind_at r =? k)%N = false).
+    { apply (hk_neq (k :: fol)); [exact Hr|]. cbn [existsb]. rewrite N.eqb_refl. reflexivity. }
+    unfold kind_at in E. rewrite E. apply run_ret.
+  - cbn [flat_map while_peek]. rewrite <- app_assoc. apply run_cur.
+    destruct (item_starts x Hx) as [tl Etl]. rewrite Etl at 1. cbn [app tok_at pt fst].
+    rewrite N.eqb_refl.
+    eapply run_bind.
+    { apply item_rt; [exact Hx|]. apply hk_while_items; [exact Hl|exact k_fol|].
+      eapply hk_nk_incl; [|exact Hr]. apply incl_cons_self. }
+    eapply run_bind; [apply IH; [cbn in Hg; lia|exact Hr]|]. apply run_ret.
+Qed.
+
+Lemma while_items_length l : Forall Pn l -> length l <= length (flat_map toksI l).
+Proof.
+  induction 1 as [|x l Hx Hl IH]; cbn [flat_map length]; [lia|].
+  rewrite app_length. destruct (item_starts x Hx) as [tl ->]. cbn [length]. lia.
+Qed.
+End While.
+
+(* items separated by the punctuator sep *)
+Section Delim.
+Variable sep : N.
+Hypothesis sep_ne : (sep =? K_EOF)%N = false.
+Hypothesis sep_fol : nk fol (sep, []) = true.
+Hypothesis item_first : forall x r, Pn x -> hk (nk [K_LEXERR; sep]) (toksI x ++ r).
+
+Lemma rt_delim_loop l : Forall Pn l -> forall x g r, Pn x -> length l < g -> hk (nk (sep :: fol)) r ->
+  run (delim_loop 0 g sep p) (toks_sep sep toksI (x :: l) ++ r) (x :: l) r.
+Proof.
+  induction 1 as [|y l Hy Hl IH]; intros x g r Hx Hg Hr; (destruct g as [|g]; [cbn in Hg; lia|]).
+  - cbn [toks_sep delim_loop].
+    eapply run_bind.
+    { apply item_rt; [exact Hx|]. eapply hk_nk_incl; [|exact Hr]. apply incl_cons_self. }
+    eapply run_bind.
+    { apply run_eot_no. apply (hk_neq (sep :: fol)); [exact Hr|]. cbn [existsb]. rewrite N.eqb_refl. reflexivity. }
+    apply run_ret.
+  - change (toks_sep sep toksI (x :: y :: l)) with (toksI x ++ pt sep :: toks_sep sep toksI (y :: l)).
+    cbn [delim_loop]. norm.
+    eapply run_bind; [apply item_rt; [exact Hx|exact sep_fol]|].
+    eapply run_bind.
+    { apply run_eot_yes; [exact sep_ne|].
+      assert (Hh : hk (nk [K_LEXERR; sep]) (toks_sep sep toksI (y :: l) ++ r)).
+      { destruct l as [|z l']; [apply item_first; exact Hy|].
+        change (toks_sep sep toksI (y :: z :: l')) with (toksI y ++ pt sep :: toks_sep sep toksI (z :: l')).
+        rewrite <- app_assoc. apply item_first. exact Hy. }
+      eapply hk_nk_incl; [|exact Hh]. reflexivity. }
+    cbv iota.
+    eapply run_bind; [apply IH; [exact Hy|cbn in Hg; lia|exact Hr]|]. apply run_ret.
+Qed.
+
+Lemma toks_sep_length l x : length l <= length (toks_sep sep toksI (x :: l)).
+Proof.
+  revert x. induction l as [|y l IH]; intros x; [cbn; lia|].
+  change (toks_sep sep toksI (x :: y :: l)) with (toksI x ++ pt sep :: toks_sep sep toksI (y :: l)).
+  rewrite app_length. cbn [length]. specialize (IH y). lia.
+Qed.
+
+Lemma rt_delimited_many x l r : Pn x -> Forall Pn l -> hk (nk (sep :: fol)) r ->
+  run (delimited_many 0 sep p) (toks_sep sep toksI (x :: l) ++ r) (x :: l) r.
+Proof.
+  intros Hx Hl Hr. unfold delimited_many.
+  assert (Hh : hk (nk [K_LEXERR; sep]) (toks_sep sep toksI (x :: l) ++ r)).
+  { destruct l as [|z l']; [apply item_first; exact Hx|].
+    change (toks_sep sep toksI (x :: z :: l')) with (toksI x ++ pt sep :: toks_sep sep toksI (z :: l')).
+    rewrite <- app_assoc. apply item_first. exact Hx. }
+  eapply run_bind.
+  { apply run_eot_no. apply (hk_neq [K_LEXERR; sep]); [exact Hh|]. cbn [existsb]. rewrite N.eqb_refl. apply orb_true_r. }
+  apply run_with_fuel. apply rt_delim_loop; [exact Hl|exact Hx| |exact Hr].
+  rewrite app_length. pose proof (toks_sep_length l x). lia.
+Qed.
+End Delim.
+End Loops2.
+
+Lemma oattr_attr_list Pn a : wf_nelist Pn a -> oattr (attr_list a) = a.
+Proof. intros [|x l Hx Hl]; reflexivity. Qed.
+
+(* ---------- arguments ---------- *)
+Lemma rt_argument c a r : wf_argument c a -> hk nle r -> run (argument 0 c) (toks_argument a ++ r) a r.
+Proof.
+  intros [n v [nv] Hv] Hr. cbn [toks_argument toks_name]. norm. unfold argument.
+  eapply run_bind; [apply run_name; reflexivity|].
+  eapply run_bind; [apply run_expect_token; [reflexivity|eapply hk_value_nk; [exact Hv|reflexivity]]|].
+  eapply run_bind; [apply rt_value_literal; [exact Hv|exact Hr]|apply run_ret].
+Qed.
+
+Lemma argument_first c a r ks : wf_argument c a -> avoids (N.eqb K_NAME) ks = true ->
+  hk (nk ks) (toks_argument a ++ r).
+Proof.
+  intros [n v [nv] Hv] H. cbn [toks_argument toks_name]. norm. unfold hk. cbn [tok_at].
+  eapply avoids_nk; [exact H|apply N.eqb_refl].
+Qed.
+
+Lemma rt_arguments c a r : wf_arguments c a -> hk (nk [K_LEXERR; K_PAREN_L]) r ->
+  run (arguments 0 c) (toks_arguments a ++ r) (attr_list a) r.
+Proof.
+  intros W Hr. unfold arguments, toks_arguments.
+  apply (rt_optional_many (argument 0 c) toks_argument (wf_argument c) [K_LEXERR]); try reflexivity; try assumption.
+  - intros x r0 Hx Hr0. apply rt_argument; assumption.
+  - intros x r0 Hx. eapply argument_first; [exact Hx|reflexivity].
+Qed.
+
+Lemma hk_arguments_nk (Pn : node -> Prop) a r ks : wf_nelist Pn a -> nk ks (K_PAREN_L, []) = true ->
+  hk (nk ks) r -> hk (nk ks) (toks_arguments a ++ r).
+Proof. intros [|x l Hx Hl] Hk Hr; [exact Hr|exact Hk]. Qed.
+
+Lemma rt_fragment_argument a r : wf_fragment_argument a -> hk nle r ->
+  run (fragment_argument 0) (toks_argument a ++ r) a r.
+Proof.
+  intros [n v [nv] Hv] Hr. cbn [toks_argument toks_name]. norm. unfold fragment_argument.
+  eapply run_bind; [apply run_name; reflexivity|].
+  eapply run_bind; [apply run_expect_token; [reflexivity|eapply hk_value_nk; [exact Hv|reflexivity]]|].
+  eapply run_bind; [apply rt_value_literal; [exact Hv|exact Hr]|apply run_ret].
+Qed.
+
+Lemma rt_fragment_arguments a r : wf_nelist wf_fragment_argument a -> hk (nk [K_LEXERR; K_PAREN_L]) r ->
+  run (fragment_arguments 0) (toks_arguments a ++ r) (attr_list a) r.
+Proof.
+  intros W Hr. unfold fragment_arguments, toks_arguments.
+  apply (rt_optional_many (fragment_argument 0) toks_argument wf_fragment_argument [K_LEXERR]); try reflexivity; try assumption.
+  - intros x r0 Hx Hr0. apply rt_fragment_argument; assumption.
+  - intros x r0 [n v [nv] Hv]. reflexivity.
+Qed.
+
+(* ---------- directives ---------- *)
+Definition fol_directive : list N := [K_LEXERR; K_PAREN_L].
+
+Lemma rt_directive c d r : wf_directive c d -> hk (nk fol_directive) r ->
+  run (directive 0 c) (toks_directive d ++ r) d r.
+Proof.
+  intros [n a [nv] Ha] Hr. cbn [toks_directive toks_name]. norm. unfold directive.
+  eapply run_bind; [apply run_expect_token; reflexivity|].
+  eapply run_bind.
+  { apply run_name. eapply hk_arguments_nk; [exact Ha|reflexivity|].
+    eapply hk_nk_incl; [|exact Hr]. reflexivity. }
+  eapply run_bind; [apply rt_arguments; [exact Ha|exact Hr]|].
+  rewrite (oattr_attr_list _ _ Ha). apply run_ret.
+Qed.
+
+Definition fol_directives : list N := K_AT :: fol_directive.
+
+Lemma lattr_nelist Pn a : wf_nelist Pn a ->
+  lattr (match a with AList l => l | _ => [] end) = a.
+Proof. intros [|x l Hx Hl]; reflexivity. Qed.
+
+Lemma rt_directives c a r : wf_directives c a -> hk (nk fol_directives) r ->
+  run (directives 0 c) (toks_directives a ++ r) a r.
+Proof.
+  intros W Hr. unfold directives.
+  assert (G : forall l, Forall (wf_directive c) l -> forall g, length l < g ->
+            run (while_peek g K_AT (directive 0 c)) (flat_map toks_directive l ++ r) l r).
+  { intros l Hl g Hg.
+    apply (rt_while_peek (directive 0 c) toks_directive (wf_directive c) fol_directive); try reflexivity; try assumption.
+    - intros x r0 Hx Hr0. apply rt_directive; assumption.
+    - intros x [n a0 Hn Ha]. eexists. reflexivity. }
+  destruct W as [|x l Hx Hl].
+  - eapply run_bind; [apply run_with_fuel; apply (G []); [constructor|cbn; lia]|]. apply run_ret.
+  - assert (R : run (with_fuel (fun f => while_peek f K_AT (directive 0 c)))
+                    (toks_directives (AList (x :: l)) ++ r) (x :: l) r).
+    { apply run_with_fuel. unfold toks_directives, toks_list. apply G; [constructor; assumption|].
+      rewrite app_length.
+      pose proof (while_items_length toks_directive (wf_directive c) K_AT) as L.
+      specialize (L ltac:(intros y [n a0 Hn Ha]; eexists; reflexivity) (x :: l) ltac:(constructor; assumption)).
+      lia. }
+    eapply run_bind; [exact R|apply run_ret].
+Qed.
+
+Lemma hk_directives_nk c a r ks : wf_directives c a -> nk ks (K_AT, []) = true ->
+  hk (nk ks) r -> hk (nk ks) (toks_directives a ++ r).
+Proof.
+  intros [|x l Hx Hl] Hk Hr; [exact Hr|].
+  destruct Hx as [n a0 Hn Ha]. exact Hk.
+Qed.
+
+(* ---------- descriptions, default values ---------- *)
+Definition fol_description : list N := [K_LEXERR; K_STRING; K_BLOCK_STRING].
+
+Lemma rt_description d r : wf_description d -> hk (nk fol_description) r ->
+  run (description 0) (toks_description d ++ r) d r.
+Proof.
+  intros [|s [v b]] Hr.
+  - cbn [toks_description toks_opt app]. unfold description. apply run_cur. unfold peek_description.
+    pose proof (hk_neq _ _ K_STRING Hr eq_refl) as E1. pose proof (hk_neq _ _ K_BLOCK_STRING Hr eq_refl) as E2.
+    unfold kind_at in E1, E2. rewrite E1, E2. apply run_ret.
+  - cbn [toks_description toks_opt toks_value app]. unfold description. apply run_cur.
+    assert (Hn : hk nle r) by (eapply hk_nk_incl; [|exact Hr]; reflexivity).
+    destruct b; cbn [tok_at fst snd peek_description]; unfold peek_description; cbn [fst]; keq.
+    + eapply run_bind; [|apply run_ret]. unfold string_literal. apply run_cur. cbn [tok_at fst snd].
+      eapply run_bind; [apply run_adv; [reflexivity|exact Hn]|]. keq. apply run_ret.
+    + eapply run_bind; [|apply run_ret]. unfold string_literal. apply run_cur. cbn [tok_at fst snd].
+      eapply run_bind; [apply run_adv; [reflexivity|exact Hn]|]. keq. apply run_ret.
+Qed.
+
+Lemma hk_description_nk d r ks : wf_description d ->
+  nk ks (K_STRING, []) = true -> nk ks (K_BLOCK_STRING, []) = true ->
+  hk (nk ks) r -> hk (nk ks) (toks_description d ++ r).
+Proof.
+  intros [|s [v b]] H1 H2 Hr; [exact Hr|]. destruct b; [exact H2|exact H1].
+Qed.
+
+Lemma run_default {B} dv r (K : attr -> P B) b r' :
+  wf_opt (wf_value true) dv -> hk (nk [K_LEXERR; K_EQUALS]) r -> run (K dv) r b r' ->
+  run (e <- expect_optional_token 0 K_EQUALS ;;
+       x <- (if e then y <- value_literal 0 true ;; ret (ANode y) else ret ANone) ;; K x)
+      (toks_default dv ++ r) b r'.
+Proof.
+  intros [|v Hv] Hr HK.
+  - cbn [toks_default app].
+    eapply run_bind; [apply run_eot_no; apply (hk_neq _ _ K_EQUALS Hr eq_refl)|]. cbv iota.
+    eapply run_bind; [apply run_ret|exact HK].
+  - cbn [toks_default]. norm.
+    eapply run_bind; [apply run_eot_yes; [reflexivity|eapply hk_value_nk; [exact Hv|reflexivity]]|]. cbv iota.
+    eapply run_bind; [|exact HK].
+    eapply run_bind; [apply rt_value_literal; [exact Hv|]|apply run_ret].
+    eapply hk_nk_incl; [|exact Hr]. reflexivity.
+Qed.
+
+Lemma hk_default_nk dv r ks : wf_opt (wf_value true) dv -> nk ks (K_EQUALS, []) = true ->
+  hk (nk ks) r -> hk (nk ks) (toks_default dv ++ r).
+Proof. intros [|v Hv] Hk Hr; [exact Hr|exact Hk]. Qed.
+
+(* ---------- selection sets ---------- *)
+Section Executable.
+Variable xfa xdd : bool.
+
+Lemma toks_selection_set_eq x l :
+  toks_selection_set (Nd KSelectionSet [AList (x :: l)]) =
+  pt K_BRACE_L :: flat_map toks_selection (x :: l) ++ [pt K_BRACE_R].
+Proof. reflexivity. Qed.
+
+Lemma toks_selection_set_cons s : wf_selection_set xfa s -> exists tl, toks_selection_set s = pt K_BRACE_L :: tl.
+Proof. intros [x l Hx Hl]. rewrite toks_selection_set_eq. eexists. reflexivity. Qed.
+
+Definition alias_toks (al : attr) : list sigtok :=
+  match al with ANode an => toks_name an ++ [pt K_COLON] | _ => [] end.
+
+Lemma toks_field d n al a ss :
+  toks_selection (Nd KField [d; ANode n; al; a; ss]) =
+  alias_toks al ++ toks_name n ++ toks_arguments a ++ toks_directives d ++
+  match ss with ANode y => toks_selection_set y | _ => [] end.
+Proof. reflexivity. Qed.
+
+Definition first_of_selection (k : N) : bool := existsb (N.eqb k) [K_NAME; K_SPREAD].
+
+Lemma hk_selection_nk x r ks : wf_selection xfa x -> avoids first_of_selection ks = true ->
+  hk (nk ks) (toks_selection x ++ r).
+Proof.
+  intros W H. unfold hk.
+  destruct W as [d n al a Hd [nv] Hal Ha|d n al a s Hd [nv] Hal Ha Hs|d n a Hd [nv Hon] Ha|d s tc Hd Hs Htc].
+  - rewrite toks_field. destruct Hal as [|an [av]]; cbn [alias_toks toks_name app tok_at];
+      (eapply avoids_nk; [exact H|reflexivity]).
+  - rewrite toks_field. destruct Hal as [|an [av]]; cbn [alias_toks toks_name app tok_at];
+      (eapply avoids_nk; [exact H|reflexivity]).
+  - cbn [toks_selection app tok_at]. eapply avoids_nk; [exact H|reflexivity].
+  - cbn [toks_selection app tok_at]. eapply avoids_nk; [exact H|reflexivity].
+Qed.
+
+Lemma toks_selection_nonempty x : wf_selection xfa x -> 1 <= length (toks_selection x).
+Proof.
+  intros W.
+  destruct W as [d n al a Hd [nv] Hal Ha|d n al a s Hd [nv] Hal Ha Hs|d n a Hd [nv Hon] Ha|d s tc Hd Hs Htc].
+  - rewrite toks_field. rewrite !app_length. cbn [toks_name length]. lia.
+  - rewrite toks_field. rewrite !app_length. cbn [toks_name length]. lia.
+  - cbn [toks_selection length]. lia.
+  - cbn [toks_selection length]. lia.
+Qed.
+
+Lemma run_alias {B} al n r (K : attr * node -> P B) b r' :
+  wf_opt wf_name al -> wf_name n -> hk (nk [K_LEXERR; K_COLON]) r -> run (K (al, n)) r b r' ->
+  run (n1 <- name 0 ;; c <- expect_optional_token 0 K_COLON ;;
+       an <- (if c then n2 <- name 0 ;; ret (ANode n1, n2) else ret (ANone, n1)) ;; K an)
+      (alias_toks al ++ toks_name n ++ r) b r'.
+Proof.
+  intros Hal [nv] Hr HK. assert (Hn : hk nle r) by (eapply hk_nk_incl; [|exact Hr]; reflexivity).
+  destruct Hal as [|an [av]].
+  - cbn [alias_toks toks_name app].
+    eapply run_bind; [apply run_name; exact Hn|].
+    eapply run_bind; [apply run_eot_no; apply (hk_neq _ _ K_COLON Hr eq_refl)|]. cbv iota.
+    eapply run_bind; [apply run_ret|exact HK].
+  - cbn [alias_toks toks_name app].
+    eapply run_bind; [apply run_name; reflexivity|].
+    eapply run_bind; [apply run_eot_yes; reflexivity|]. cbv iota.
+    eapply run_bind; [|exact HK].
+    eapply run_bind; [apply run_name; exact Hn|apply run_ret].
+Qed.
+
+Definition fol_selection : list N := [K_LEXERR; K_COLON; K_PAREN_L; K_AT; K_BRACE_L].
+
+Definition PSS (s : node) : Prop :=
+  forall f r, length (toks_selection_set s) <= f -> hk nle r ->
+    run (sel_set 0 xfa f) (toks_selection_set s ++ r) s r.
+Definition PSL (l : list node) : Prop :=
+  forall fs g r, length (flat_map toks_selection l) <= fs -> length l < g -> hk nle r ->
+    run (until_close 0 g K_BRACE_R (selection 0 xfa (sel_set 0 xfa fs)))
+        (flat_map toks_selection l ++ pt K_BRACE_R :: r) l r.
+Definition PS (x : node) : Prop :=
+  forall fs r, length (toks_selection x) <= fs -> hk (nk fol_selection) r ->
+    run (selection 0 xfa (sel_set 0 xfa fs)) (toks_selection x ++ r) x r.
+
+Lemma hk_selections_nk l r ks : wf_selections xfa l -> avoids first_of_selection ks = true ->
+  nk ks (K_BRACE_R, []) = true -> hk (nk ks) (flat_map toks_selection l ++ pt K_BRACE_R :: r).
+Proof.
+  intros [|x l' Hx Hl] H1 H2; [exact H2|].
+  cbn [flat_map]. rewrite <- app_assoc. apply hk_selection_nk; assumption.
+Qed.
+
+Lemma selections_length l : wf_selections xfa l -> length l <= length (flat_map toks_selection l).
+Proof.
+  induction 1 as [|x l Hx Hl IH]; cbn [flat_map length]; [lia|].
+  rewrite app_length. pose proof (toks_selection_nonempty x Hx). lia.
+Qed.
+
+(* name, alias, arguments and directives of a field; [tl] is what follows the directives *)
+Ltac field_prefix Hal Hn Ha Hd Htl :=
+  unfold field;
+  apply run_alias; [exact Hal|exact Hn| |];
+  [ eapply hk_arguments_nk; [exact Ha|reflexivity|];
+    apply (hk_directives_nk false); [exact Hd|reflexivity|];
+    eapply hk_nk_incl; [|exact Htl]; reflexivity
+  | eapply run_bind;
+    [ apply rt_arguments; [exact Ha|];
+      apply (hk_directives_nk false); [exact Hd|reflexivity|];
+      eapply hk_nk_incl; [|exact Htl]; reflexivity
+    | eapply run_bind;
+      [ apply rt_directives; [exact Hd|]; eapply hk_nk_incl; [|exact Htl]; reflexivity | ] ] ].
+
+Lemma rt_selection_all :
+  (forall s, wf_selection_set xfa s -> PSS s) /\ (forall l, wf_selections xfa l -> PSL l) /\ (forall x, wf_selection xfa x -> PS x).
+Proof.
+  apply wf_selection_mutind.
+  - (* selection set *)
+    intros x l Hx IHx Hl IHl f r Hf Hr. rewrite toks_selection_set_eq in *.
+    destruct f as [|f]; [cbn in Hf; lia|]. len_norm Hf.
+    cbn [sel_set]. eapply run_bind; [|apply run_ret].
+    unfold many. cbn [flat_map] in *. len_norm Hf. norm.
+    eapply run_bind.
+    { apply run_expect_token; [reflexivity|]. apply hk_selection_nk; [exact Hx|reflexivity]. }
+    eapply run_bind.
+    { apply IHx; [lia|]. apply hk_selections_nk; [exact Hl|reflexivity|reflexivity]. }
+    eapply run_bind; [|apply run_ret].
+    unfold loop_close. apply run_with_fuel. apply IHl; [lia| |exact Hr].
+    rewrite app_length. pose proof (selections_length l Hl). cbn [length]. lia.
+  - (* nil *)
+    intros fs g r _ Hg Hr. destruct g as [|g]; [lia|]. cbn [flat_map app until_close].
+    eapply run_bind; [apply run_eot_yes; [reflexivity|exact Hr]|]. apply run_ret.
+  - (* cons *)
+    intros x l Hx IHx Hl IHl fs g r Hfs Hg Hr. destruct g as [|g]; [lia|].
+    cbn [flat_map length] in *. rewrite app_length in Hfs.
+    cbn [until_close]. rewrite <- app_assoc.
+    eapply run_bind.
+    { apply run_eot_no. apply (hk_neq [K_BRACE_R]); [|reflexivity]. apply hk_selection_nk; [exact Hx|reflexivity]. }
+    cbv iota. eapply run_bind.
+    { apply IHx; [lia|]. apply hk_selections_nk; [exact Hl|reflexivity|reflexivity]. }
+    eapply run_bind; [apply IHl; [lia|lia|exact Hr]|]. apply run_ret.
+  - (* field without selection set *)
+    intros d n al a Hd Hn Hal Ha fs r Hfs Hr. rewrite toks_field in *. norm.
+    unfold selection. apply run_cur.
+    assert (E : (fst (tok_at (alias_toks al ++ toks_name n ++ toks_arguments a ++ toks_directives d ++ r)) =? K_SPREAD)%N = false).
+    { destruct Hn as [nv]. destruct Hal as [|an [av]]; reflexivity. }
+    rewrite E.
+    assert (Htl : hk (nk [K_LEXERR; K_COLON; K_PAREN_L; K_AT]) r) by (eapply hk_nk_incl; [|exact Hr]; reflexivity).
+    field_prefix Hal Hn Ha Hd Htl.
+    apply run_cur. pose proof (hk_neq _ _ K_BRACE_L Hr eq_refl) as E2. unfold kind_at in E2. rewrite E2.
+    eapply run_bind; [apply run_ret|]. cbn [fst snd]. rewrite (oattr_attr_list _ _ Ha). apply run_ret.
+  - (* field with selection set *)
+    intros d n al a s Hd Hn Hal Ha Hs IHs fs r Hfs Hr. rewrite toks_field in *.
+    repeat rewrite app_length in Hfs. norm.
+    unfold selection. apply run_cur.
+    assert (E : (fst (tok_at (alias_toks al ++ toks_name n ++ toks_arguments a ++ toks_directives d ++ toks_selection_set s ++ r)) =? K_SPREAD)%N = false).
+    { destruct Hn as [nv]. destruct Hal as [|an [av]]; reflexivity. }
+    rewrite E.
+    destruct (toks_selection_set_cons s Hs) as [tl Etl].
+    assert (Htl : hk (nk [K_LEXERR; K_COLON; K_PAREN_L; K_AT]) (toks_selection_set s ++ r)) by (rewrite Etl; reflexivity).
+    field_prefix Hal Hn Ha Hd Htl.
+    apply run_cur. rewrite Etl at 1. cbn [app tok_at fst pt]. keq.
+    eapply run_bind.
+    { eapply run_bind; [apply IHs; [lia|]|apply run_ret]. eapply hk_nk_incl; [|exact Hr]. reflexivity. }
+    cbn [fst snd]. rewrite (oattr_attr_list _ _ Ha). apply run_ret.
+  - (* fragment spread *)
+    intros d n a Hd [nv Hon] Ha fs r Hfs Hr. cbn [toks_selection toks_name]. norm.
+    unfold selection. apply run_cur. cbn [tok_at fst pt]. keq.
+    unfold fragment.
+    eapply run_bind; [apply run_expect_token; reflexivity|].
+    eapply run_bind.
+    { apply run_eokw_no. unfold is_keyword, nm. cbn [tok_at fst snd]. rewrite Hon. apply andb_false_r. }
+    apply run_cur. cbn [tok_at fst nm negb andb]. keq.
+    assert (Hr1 : hk (nk [K_LEXERR; K_PAREN_L; K_AT]) r) by (eapply hk_nk_incl; [|exact Hr]; reflexivity).
+    assert (Hnext : hk nle (toks_arguments a ++ toks_directives d ++ r)).
+    { unfold wf_spread_arguments in Ha. destruct xfa.
+      - eapply hk_arguments_nk; [exact Ha|reflexivity|].
+        apply (hk_directives_nk false); [exact Hd|reflexivity|]. eapply hk_nk_incl; [|exact Hr]. reflexivity.
+      - subst a. cbn [toks_arguments toks_block app].
+        apply (hk_directives_nk false); [exact Hd|reflexivity|]. eapply hk_nk_incl; [|exact Hr]. reflexivity. }
+    eapply run_bind.
+    { unfold fragment_name. apply run_cur. cbn [tok_at snd nm]. rewrite Hon. apply run_name. exact Hnext. }
+    apply run_cur.
+    assert (Hd1 : hk (nk fol_directives) r) by (eapply hk_nk_incl; [|exact Hr]; reflexivity).
+    unfold wf_spread_arguments in Ha. destruct xfa.
+    + destruct Ha as [|y l Hy Hl].
+      * cbn [toks_arguments toks_block app].
+        assert (E : (kind_at (toks_directives d ++ r) =? K_PAREN_L)%N = false).
+        { apply (hk_neq [K_PAREN_L]); [|reflexivity]. apply (hk_directives_nk false); [exact Hd|reflexivity|].
+          eapply hk_nk_incl; [|exact Hr]. reflexivity. }
+        unfold kind_at in E. rewrite E. cbn [andb].
+        eapply run_bind; [apply run_ret|].
+        eapply run_bind; [apply rt_directives; [exact Hd|exact Hd1]|]. apply run_ret.
+      * cbn [toks_arguments toks_block app tok_at fst pt]. keq.
+        eapply run_bind.
+        { apply (rt_fragment_arguments (AList (y :: l))); [constructor; assumption|].
+          apply (hk_directives_nk false); [exact Hd|reflexivity|]. eapply hk_nk_incl; [|exact Hr]. reflexivity. }
+        eapply run_bind; [apply rt_directives; [exact Hd|exact Hd1]|]. apply run_ret.
+    + subst a. cbn [toks_arguments toks_block app]. rewrite andb_false_r.
+      eapply run_bind; [apply run_ret|].
+      eapply run_bind; [apply rt_directives; [exact Hd|exact Hd1]|]. apply run_ret.
+  - (* inline fragment *)
+    intros d s tc Hd Hs IHs Htc fs r Hfs Hr.
+    cbn [toks_selection] in *. len_norm Hfs. repeat rewrite app_length in Hfs.
+    destruct (toks_selection_set_cons s Hs) as [tl Etl].
+    assert (Hss : run (sel_set 0 xfa fs) (toks_selection_set s ++ r) s r).
+    { apply IHs; [lia|]. eapply hk_nk_incl; [|exact Hr]. reflexivity. }
+    assert (Hds : run (directives 0 false) (toks_directives d ++ toks_selection_set s ++ r) d (toks_selection_set s ++ r)).
+    { apply rt_directives; [exact Hd|]. rewrite Etl. reflexivity. }
+    assert (Hhead : forall S, S (K_AT, []) = true -> S (K_BRACE_L, []) = true ->
+              S (tok_at (toks_directives d ++ toks_selection_set s ++ r)) = true).
+    { intros S H1 H2. destruct Hd as [|y l [yn ya Hyn Hya] Hl].
+      - cbn [toks_directives toks_list app]. rewrite Etl. exact H2.
+      - exact H1. }
+    norm. unfold selection. apply run_cur. cbn [tok_at fst pt]. keq.
+    unfold fragment.
+    destruct Htc as [|t Ht].
+    + cbn [app].
+      eapply run_bind.
+      { apply run_expect_token; [reflexivity|]. apply (Hhead (nk [K_LEXERR])); reflexivity. }
+      eapply run_bind.
+      { apply run_eokw_no. unfold is_keyword.
+        rewrite (Hhead (fun t => negb (fst t =? K_NAME)%N) eq_refl eq_refl) || idtac.
+        pose proof (Hhead (fun t => negb (fst t =? K_NAME)%N) eq_refl eq_refl) as E.
+        apply negb_true_iff in E. rewrite E. reflexivity. }
+      apply run_cur.
+      pose proof (Hhead (fun t => negb (fst t =? K_NAME)%N) eq_refl eq_refl) as E.
+      apply negb_true_iff in E. rewrite E. cbn [negb andb].
+      eapply run_bind; [apply run_ret|].
+      eapply run_bind; [exact Hds|].
+      eapply run_bind; [exact Hss|]. apply run_ret.
+    + destruct Ht as [tn [tv]]. cbn [toks_type toks_name]. norm.
+      eapply run_bind; [apply run_expect_token; reflexivity|].
+      eapply run_bind; [apply run_eokw_yes; reflexivity|].
+      apply run_cur. cbn [negb andb].
+      eapply run_bind.
+      { eapply run_bind; [|apply run_ret]. unfold named_type.
+        eapply run_bind; [apply run_name|apply run_ret]. apply (Hhead (nk [K_LEXERR])); reflexivity. }
+      eapply run_bind; [exact Hds|].
+      eapply run_bind; [exact Hss|]. apply run_ret.
+Qed.
+
+Lemma rt_selection_set s r : wf_selection_set xfa s -> hk nle r ->
+  run (selection_set 0 xfa) (toks_selection_set s ++ r) s r.
+Proof.
+  intros W Hr. unfold selection_set. apply run_with_fuel.
+  apply (proj1 rt_selection_all s W); [|exact Hr]. rewrite app_length. lia.
+Qed.
+
+Lemma hk_selection_set_nk s r ks : wf_selection_set xfa s -> nk ks (K_BRACE_L, []) = true ->
+  hk (nk ks) (toks_selection_set s ++ r).
+Proof. intros W H. destruct (toks_selection_set_cons s W) as [tl ->]. exact H. Qed.
+
+(* ---------- variable definitions ---------- *)
+Definition fol_vardef : list N := [K_LEXERR; K_BANG; K_EQUALS; K_AT; K_PAREN_L].
+
+Lemma toks_vardef d v t dv ds :
+  toks_variable_definition (Nd KVariableDefinition [d; ANode v; ANode t; dv; ds]) =
+  toks_description d ++ toks_value v ++ pt K_COLON :: toks_type t ++ toks_default dv ++ toks_directives ds.
+Proof. reflexivity. Qed.
+
+Lemma rt_variable_definition x r : wf_variable_definition x -> hk (nk fol_vardef) r ->
+  run (variable_definition 0) (toks_variable_definition x ++ r) x r.
+Proof.
+  intros [d v t dv ds Hd [n [nv]] Ht Hdv Hds] Hr. rewrite toks_vardef.
+  cbn [toks_value toks_name]. norm. unfold variable_definition.
+  eapply run_bind; [apply rt_description; [exact Hd|reflexivity]|].
+  eapply run_bind.
+  { unfold variable. eapply run_bind; [apply run_expect_token; reflexivity|].
+    eapply run_bind; [apply run_name; reflexivity|apply run_ret]. }
+  eapply run_bind; [apply run_expect_token; [reflexivity|apply hk_type_nk; [exact Ht|reflexivity]]|].
+  eapply run_bind.
+  { apply rt_type_reference; [exact Ht|].
+    apply hk_default_nk; [exact Hdv|reflexivity|].
+    apply (hk_directives_nk true); [exact Hds|reflexivity|].
+    eapply hk_nk_incl; [|exact Hr]. reflexivity. }
+  apply run_default; [exact Hdv| |].
+  { apply (hk_directives_nk true); [exact Hds|reflexivity|]. eapply hk_nk_incl; [|exact Hr]. reflexivity. }
+  eapply run_bind; [apply rt_directives; [exact Hds|]|apply run_ret].
+  eapply hk_nk_incl; [|exact Hr]. reflexivity.
+Qed.
+
+Lemma variable_definition_first x r ks : wf_variable_definition x ->
+  avoids (fun k => existsb (N.eqb k) [K_STRING; K_BLOCK_STRING; K_DOLLAR]) ks = true ->
+  hk (nk ks) (toks_variable_definition x ++ r).
+Proof.
+  intros [d v t dv ds Hd [n [nv]] Ht Hdv Hds] H. rewrite toks_vardef. cbn [toks_value toks_name]. norm.
+  unfold hk. destruct Hd as [|s [sv b]].
+  - cbn [toks_description toks_opt app tok_at]. eapply avoids_nk; [exact H|reflexivity].
+  - cbn [toks_description toks_opt toks_value app tok_at]. destruct b; (eapply avoids_nk; [exact H|reflexivity]).
+Qed.
+
+Lemma rt_variable_definitions a r : wf_variable_definitions a -> hk (nk [K_LEXERR; K_PAREN_L]) r ->
+  run (variable_definitions 0) (toks_variable_definitions a ++ r) (attr_list a) r.
+Proof.
+  intros W Hr. unfold variable_definitions, toks_variable_definitions.
+  apply (rt_optional_many (variable_definition 0) toks_variable_definition wf_variable_definition fol_vardef);
+    try reflexivity; try assumption.
+  - intros x r0 Hx Hr0. apply rt_variable_definition; assumption.
+  - intros x r0 Hx. apply variable_definition_first; [exact Hx|reflexivity].
+Qed.
+
+Lemma hk_variable_definitions_nk a r ks : wf_variable_definitions a -> nk ks (K_PAREN_L, []) = true ->
+  hk (nk ks) r -> hk (nk ks) (toks_variable_definitions a ++ r).
+Proof. intros [|x l Hx Hl] Hk Hr; [exact Hr|exact Hk]. Qed.
+
+(* ---------- operations ---------- *)
+Lemma operation_type_of_name o : wf_operation_code o -> operation_type_of (op_name o) = Some o.
+Proof. intros [-> | [-> | ->]]; reflexivity. Qed.
+
+Lemma run_operation_type o r : wf_operation_code o -> hk nle r ->
+  run (operation_type 0) (nm (op_name o) :: r) o r.
+Proof.
+  intros Ho Hr. unfold operation_type.
+  eapply run_bind; [apply run_expect_token; [reflexivity|exact Hr]|].
+  rewrite (operation_type_of_name o Ho). apply run_ret.
+Qed.
+
+Definition full_operation_toks (s : node) (d n vs ds : attr) (o : N) : list sigtok :=
+  toks_description d ++ nm (op_name o) :: toks_opt toks_name n ++
+  toks_variable_definitions vs ++ toks_directives ds ++ toks_selection_set s.
+
+Lemma rt_operation_full s d n vs ds o r :
+  wf_selection_set xfa s -> wf_description d -> wf_opt wf_name n -> wf_variable_definitions vs ->
+  wf_directives false ds -> wf_operation_code o -> hk nle r ->
+  run (operation_definition 0 xfa) (full_operation_toks s d n vs ds o ++ r)
+      (Nd KOperationDefinition [ANode s; d; n; vs; ds; AEnum o]) r.
+Proof.
+  intros Hs Hd Hn Hvs Hds Ho Hr. unfold full_operation_toks. norm.
+  destruct (toks_selection_set_cons s Hs) as [tl Etl].
+  assert (Htail : forall ks, nk ks (K_PAREN_L, []) = true -> nk ks (K_AT, []) = true ->
+             nk ks (K_BRACE_L, []) = true ->
+             hk (nk ks) (toks_variable_definitions vs ++ toks_directives ds ++ toks_selection_set s ++ r)).
+  { intros ks H1 H2 H3. apply hk_variable_definitions_nk; [exact Hvs|exact H1|].
+    apply (hk_directives_nk false); [exact Hds|exact H2|]. rewrite Etl. exact H3. }
+  unfold operation_definition. apply run_cur.
+  assert (E : (fst (tok_at (toks_description d ++ nm (op_name o) :: toks_opt toks_name n ++
+                toks_variable_definitions vs ++ toks_directives ds ++ toks_selection_set s ++ r)) =? K_BRACE_L)%N = false).
+  { destruct Hd as [|x [sv b]]; [reflexivity|]. destruct b; reflexivity. }
+  rewrite E.
+  eapply run_bind; [apply rt_description; [exact Hd|reflexivity]|].
+  eapply run_bind.
+  { apply run_operation_type; [exact Ho|].
+    destruct Hn as [|x [nv]]; [apply Htail; reflexivity|reflexivity]. }
+  apply run_cur.
+  eapply run_bind.
+  { instantiate (1 := toks_variable_definitions vs ++ toks_directives ds ++ toks_selection_set s ++ r).
+    instantiate (1 := n).
+    destruct Hn as [|x [nv]].
+    - cbn [toks_opt app].
+      pose proof (Htail [K_NAME] eq_refl eq_refl eq_refl) as E2.
+      apply (hk_neq _ _ K_NAME) in E2; [|reflexivity]. unfold kind_at in E2. rewrite E2. apply run_ret.
+    - cbn [toks_opt toks_name app tok_at fst nm]. keq.
+      eapply run_bind; [apply run_name; apply Htail; reflexivity|apply run_ret]. }
+  eapply run_bind.
+  { apply rt_variable_definitions; [exact Hvs|].
+    apply (hk_directives_nk false); [exact Hds|reflexivity|]. rewrite Etl. reflexivity. }
+  eapply run_bind; [apply rt_directives; [exact Hds|rewrite Etl; reflexivity]|].
+  eapply run_bind; [apply rt_selection_set; [exact Hs|exact Hr]|].
+  rewrite (oattr_attr_list _ _ Hvs). apply run_ret.
+Qed.
+
+Lemma rt_operation_short s r :
+  wf_selection_set xfa s -> hk nle r ->
+  run (operation_definition 0 xfa) (toks_selection_set s ++ r)
+      (Nd KOperationDefinition [ANode s; ANone; ANone; ANone; ANone; AEnum 0%N]) r.
+Proof.
+  intros Hs Hr. destruct (toks_selection_set_cons s Hs) as [tl Etl].
+  unfold operation_definition. apply run_cur. rewrite Etl at 1. cbn [app tok_at fst pt]. keq.
+  eapply run_bind; [apply rt_selection_set; [exact Hs|exact Hr]|]. apply run_ret.
+Qed.
+
+(* ---------- fragment definitions ---------- *)
+Lemma toks_fragdef s d n vs ds tc :
+  toks_fragment_definition (Nd KFragmentDefinition [ANode s; d; ANode n; vs; ds; ANode tc]) =
+  toks_description d ++ nm s_fragment :: toks_name n ++ toks_variable_definitions vs ++
+  nm s_on :: toks_type tc ++ toks_directives ds ++ toks_selection_set s.
+Proof. reflexivity. Qed.
+
+Lemma rt_fragment_definition x r : wf_fragment_definition xfa x -> hk nle r ->
+  run (fragment_definition 0 xfa) (toks_fragment_definition x ++ r) x r.
+Proof.
+  intros [s d n vs ds tc Hs Hd [nv Hon] Hvs Hds [tn [tv]]] Hr. rewrite toks_fragdef.
+  cbn [toks_type toks_name]. norm.
+  destruct (toks_selection_set_cons s Hs) as [tl Etl].
+  unfold fragment_definition.
+  eapply run_bind; [apply rt_description; [exact Hd|reflexivity]|].
+  eapply run_bind; [apply run_expect_keyword; reflexivity|].
+  eapply run_bind.
+  { unfold fragment_name. apply run_cur. cbn [tok_at snd nm]. rewrite Hon. apply run_name.
+    destruct xfa.
+    - apply hk_variable_definitions_nk; [exact Hvs|reflexivity|reflexivity].
+    - subst vs. reflexivity. }
+  eapply run_bind.
+  { instantiate (1 := nm s_on :: nm tv :: toks_directives ds ++ toks_selection_set s ++ r).
+    instantiate (1 := vs).
+    destruct xfa.
+    - eapply run_bind; [apply rt_variable_definitions; [exact Hvs|reflexivity]|].
+      rewrite (oattr_attr_list _ _ Hvs). apply run_ret.
+    - subst vs. apply run_ret. }
+  eapply run_bind.
+  { unfold type_condition. eapply run_bind; [apply run_expect_keyword; reflexivity|].
+    unfold named_type. eapply run_bind; [apply run_name|apply run_ret].
+    apply (hk_directives_nk false); [exact Hds|reflexivity|]. rewrite Etl. reflexivity. }
+  eapply run_bind; [apply rt_directives; [exact Hds|rewrite Etl; reflexivity]|].
+  eapply run_bind; [apply rt_selection_set; [exact Hs|exact Hr]|]. apply run_ret.
+Qed.
+
+(* ---------- type system definitions ---------- *)
+Lemma rt_operation_type_definition x r : wf_operation_type_definition x -> hk nle r ->
+  run (operation_type_definition 0) (toks_operation_type_definition x ++ r) x r.
+Proof.
+  intros [o t Ho [tn [tv]]] Hr. cbn [toks_operation_type_definition toks_type toks_name]. norm.
+  unfold operation_type_definition.
+  eapply run_bind; [apply run_operation_type; [exact Ho|reflexivity]|].
+  eapply run_bind; [apply run_expect_token; reflexivity|].
+  eapply run_bind; [|apply run_ret].
+  unfold named_type. eapply run_bind; [apply run_name; exact Hr|apply run_ret].
+Qed.
+
+Lemma toks_schema_def d ds x l :
+  toks_type_system (Nd KSchemaDefinition [d; ds; AList (x :: l)]) =
+  toks_description d ++ nm s_schema :: toks_directives ds ++
+  pt K_BRACE_L :: flat_map toks_operation_type_definition (x :: l) ++ [pt K_BRACE_R].
+Proof. reflexivity. Qed.
+
+Lemma rt_many_otd x l r :
+  wf_operation_type_definition x -> Forall wf_operation_type_definition l -> hk nle r ->
+  run (many 0 K_BRACE_L (operation_type_definition 0) K_BRACE_R)
+      (pt K_BRACE_L :: flat_map toks_operation_type_definition (x :: l) ++ pt K_BRACE_R :: r) (x :: l) r.
+Proof.
+  intros Hx Hl Hr.
+  apply (rt_many (operation_type_definition 0) toks_operation_type_definition wf_operation_type_definition [K_LEXERR]);
+    try reflexivity; try assumption.
+  - intros y r0 Hy Hr0. apply rt_operation_type_definition; assumption.
+  - intros y r0 [o t Ho Ht]. reflexivity.
+Qed.
+
+Lemma rt_schema_definition d ds ots r :
+  wf_description d -> wf_directives true ds -> wf_list1 wf_operation_type_definition ots -> hk nle r ->
+  run (schema_definition 0) (toks_type_system (Nd KSchemaDefinition [d; ds; ots]) ++ r)
+      (Nd KSchemaDefinition [d; ds; ots]) r.
+Proof.
+  intros Hd Hds [x l Hx Hl] Hr. rewrite toks_schema_def. norm. unfold schema_definition.
+  eapply run_bind; [apply rt_description; [exact Hd|reflexivity]|].
+  eapply run_bind; [apply run_expect_keyword; apply (hk_directives_nk true); [exact Hds|reflexivity|reflexivity]|].
+  eapply run_bind; [apply rt_directives; [exact Hds|reflexivity]|].
+  eapply run_bind; [apply rt_many_otd; assumption|]. apply run_ret.
+Qed.
+
+Lemma rt_scalar_type_definition n d ds r :
+  wf_name n -> wf_description d -> wf_directives true ds -> hk (nk fol_directives) r ->
+  run (scalar_type_definition 0) (toks_type_system (Nd KScalarTypeDefinition [ANode n; d; ds]) ++ r)
+      (Nd KScalarTypeDefinition [ANode n; d; ds]) r.
+Proof.
+  intros [nv] Hd Hds Hr. cbn [toks_type_system toks_name]. norm. unfold scalar_type_definition.
+  eapply run_bind; [apply rt_description; [exact Hd|reflexivity]|].
+  eapply run_bind; [apply run_expect_keyword; reflexivity|].
+  eapply run_bind.
+  { apply run_name. apply (hk_directives_nk true); [exact Hds|reflexivity|].
+    eapply hk_nk_incl; [|exact Hr]. reflexivity. }
+  eapply run_bind; [apply rt_directives; [exact Hds|exact Hr]|]. apply run_ret.
+Qed.
+
+(* implements A & B *)
+Definition not_kw (w : list N) (l : list sigtok) : Prop := is_keyword (tok_at l) w = false.
+
+Lemma rt_implements i r :
+  wf_nelist wf_named_type i -> not_kw s_implements r -> hk (nk [K_AMP; K_LEXERR]) r ->
+  run (implements_interfaces 0) (toks_implements i ++ r) i r.
+Proof.
+  intros [|x l Hx Hl] Hk Hr; unfold implements_interfaces.
+  - cbn [toks_implements toks_delimited app].
+    eapply run_bind; [apply run_eokw_no; exact Hk|]. apply run_ret.
+  - cbn [toks_implements toks_delimited]. norm.
+    eapply run_bind.
+    { apply run_eokw_yes.
+      destruct l as [|z l']; [apply hk_named_type_nk; [exact Hx|reflexivity]|].
+      change (toks_sep K_AMP toks_type (x :: z :: l')) with (toks_type x ++ pt K_AMP :: toks_sep K_AMP toks_type (z :: l')).
+      rewrite <- app_assoc. apply hk_named_type_nk; [exact Hx|reflexivity]. }
+    cbv iota. eapply run_bind; [|apply run_ret].
+    apply (rt_delimited_many (named_type 0) toks_type wf_named_type [K_LEXERR]); try reflexivity; try assumption.
+    + intros y r0 Hy Hr0. apply rt_named_type; assumption.
+    + intros y r0 Hy. apply hk_named_type_nk; [exact Hy|reflexivity].
+Qed.
+
+Lemma implements_head S i r :
+  wf_nelist wf_named_type i -> (forall v, S (K_NAME, v) = true) -> S (tok_at r) = true ->
+  S (tok_at (toks_implements i ++ r)) = true.
+Proof. intros [|x l Hx Hl] H1 H2; [exact H2|apply H1]. Qed.
+
+(* input value definitions *)
+Lemma toks_ivd n t d dv ds :
+  toks_input_value_definition (Nd KInputValueDefinition [ANode n; ANode t; d; dv; ds]) =
+  toks_description d ++ toks_name n ++ pt K_COLON :: toks_type t ++ toks_default dv ++ toks_directives ds.
+Proof. reflexivity. Qed.
+
+Lemma rt_input_value_def x r : wf_input_value_definition x -> hk (nk fol_vardef) r ->
+  run (input_value_def 0) (toks_input_value_definition x ++ r) x r.
+Proof.
+  intros [n t d dv ds [nv] Ht Hd Hdv Hds] Hr. rewrite toks_ivd. cbn [toks_name]. norm.
+  unfold input_value_def.
+  eapply run_bind; [apply rt_description; [exact Hd|reflexivity]|].
+  eapply run_bind; [apply run_name; reflexivity|].
+  eapply run_bind; [apply run_expect_token; [reflexivity|apply hk_type_nk; [exact Ht|reflexivity]]|].
+  eapply run_bind.
+  { apply rt_type_reference; [exact Ht|].
+    apply hk_default_nk; [exact Hdv|reflexivity|].
+    apply (hk_directives_nk true); [exact Hds|reflexivity|].
+    eapply hk_nk_incl; [|exact Hr]. reflexivity. }
+  apply run_default; [exact Hdv| |].
+  { apply (hk_directives_nk true); [exact Hds|reflexivity|]. eapply hk_nk_incl; [|exact Hr]. reflexivity. }
+  eapply run_bind; [apply rt_directives; [exact Hds|]|apply run_ret].
+  eapply hk_nk_incl; [|exact Hr]. reflexivity.
+Qed.
+
+Definition first_of_described (k : N) : bool := existsb (N.eqb k) [K_STRING; K_BLOCK_STRING; K_NAME].
+
+Lemma input_value_def_first x r ks : wf_input_value_definition x -> avoids first_of_described ks = true ->
+  hk (nk ks) (toks_input_value_definition x ++ r).
+Proof.
+  intros [n t d dv ds [nv] Ht Hd Hdv Hds] H. rewrite toks_ivd. cbn [toks_name]. norm.
+  unfold hk. destruct Hd as [|s [sv b]].
+  - cbn [toks_description toks_opt app tok_at]. eapply avoids_nk; [exact H|reflexivity].
+  - cbn [toks_description toks_opt toks_value app tok_at]. destruct b; (eapply avoids_nk; [exact H|reflexivity]).
+Qed.
+
+Lemma rt_argument_defs a r : wf_nelist wf_input_value_definition a -> hk (nk [K_LEXERR; K_PAREN_L]) r ->
+  run (argument_defs 0) (toks_block K_PAREN_L toks_input_value_definition K_PAREN_R a ++ r) (attr_list a) r.
+Proof.
+  intros W Hr. unfold argument_defs.
+  apply (rt_optional_many (input_value_def 0) toks_input_value_definition wf_input_value_definition fol_vardef);
+    try reflexivity; try assumption.
+  - intros x r0 Hx Hr0. apply rt_input_value_def; assumption.
+  - intros x r0 Hx. apply input_value_def_first; [exact Hx|reflexivity].
+Qed.
+
+Lemma rt_input_fields_definition a r : wf_nelist wf_input_value_definition a -> hk nle r -> (is_block a = false -> hk (nk [K_BRACE_L]) r) ->
+  run (input_fields_definition 0) (toks_input_fields a ++ r) (attr_list a) r.
+Proof.
+  intros W Hr Ho. unfold input_fields_definition, toks_input_fields.
+  apply (rt_optional_many_gen (input_value_def 0) toks_input_value_definition wf_input_value_definition fol_vardef);
+    try reflexivity; try assumption.
+  - intros x r0 Hx Hr0. apply rt_input_value_def; assumption.
+  - intros x r0 Hx. apply input_value_def_first; [exact Hx|reflexivity].
+Qed.
+
+Lemma hk_block_nk (Pn : node -> Prop) open f close a r ks : wf_nelist Pn a -> nk ks (open, []) = true ->
+  hk (nk ks) r -> hk (nk ks) (toks_block open f close a ++ r).
+Proof. intros [|x l Hx Hl] Hk Hr; [exact Hr|exact Hk]. Qed.
+
+(* field definitions *)
+Definition fol_fielddef : list N := [K_LEXERR; K_BANG; K_AT; K_PAREN_L].
+
+Lemma toks_fd n t d a ds :
+  toks_field_definition (Nd KFieldDefinition [ANode n; ANode t; d; a; ds]) =
+  toks_description d ++ toks_name n ++ toks_block K_PAREN_L toks_input_value_definition K_PAREN_R a ++
+  pt K_COLON :: toks_type t ++ toks_directives ds.
+Proof. reflexivity. Qed.
+
+Lemma rt_field_definition x r : wf_field_definition x -> hk (nk fol_fielddef) r ->
+  run (field_definition 0) (toks_field_definition x ++ r) x r.
+Proof.
+  intros [n t d a ds [nv] Ht Hd Ha Hds] Hr. rewrite toks_fd. cbn [toks_name]. norm.
+  unfold field_definition.
+  eapply run_bind; [apply rt_description; [exact Hd|reflexivity]|].
+  eapply run_bind.
+  { apply run_name. eapply hk_block_nk; [exact Ha|reflexivity|reflexivity]. }
+  eapply run_bind; [apply rt_argument_defs; [exact Ha|reflexivity]|].
+  eapply run_bind; [apply run_expect_token; [reflexivity|apply hk_type_nk; [exact Ht|reflexivity]]|].
+  eapply run_bind.
+  { apply rt_type_reference; [exact Ht|].
+    apply (hk_directives_nk true); [exact Hds|reflexivity|].
+    eapply hk_nk_incl; [|exact Hr]. reflexivity. }
+  eapply run_bind; [apply rt_directives; [exact Hds|]|].
+  { eapply hk_nk_incl; [|exact Hr]. reflexivity. }
+  rewrite (oattr_attr_list _ _ Ha). apply run_ret.
+Qed.
+
+Lemma field_definition_first x r ks : wf_field_definition x -> avoids first_of_described ks = true ->
+  hk (nk ks) (toks_field_definition x ++ r).
+Proof.
+  intros [n t d a ds [nv] Ht Hd Ha Hds] H. rewrite toks_fd. cbn [toks_name]. norm.
+  unfold hk. destruct Hd as [|s [sv b]].
+  - cbn [toks_description toks_opt app tok_at]. eapply avoids_nk; [exact H|reflexivity].
+  - cbn [toks_description toks_opt toks_value app tok_at]. destruct b; (eapply avoids_nk; [exact H|reflexivity]).
+Qed.
+
+Lemma rt_fields_definition a r : wf_nelist wf_field_definition a -> hk nle r -> (is_block a = false -> hk (nk [K_BRACE_L]) r) ->
+  run (fields_definition 0) (toks_fields a ++ r) (attr_list a) r.
+Proof.
+  intros W Hr Ho. unfold fields_definition, toks_fields.
+  apply (rt_optional_many_gen (field_definition 0) toks_field_definition wf_field_definition fol_fielddef);
+    try reflexivity; try assumption.
+  - intros x r0 Hx Hr0. apply rt_field_definition; assumption.
+  - intros x r0 Hx. apply field_definition_first; [exact Hx|reflexivity].
+Qed.
+
+(* what may follow a type definition whose trailing parts are all optional *)
+Definition fol_typedef : list N := [K_LEXERR; K_AMP; K_AT; K_PAREN_L].
+
+(* name, implements, directives, fields: shared by type/interface definitions and extensions *)
+Lemma run_object_body {B} n i ds f r (K : node -> attr -> attr -> option (list node) -> P B) b r' :
+  wf_name n -> wf_nelist wf_named_type i -> wf_directives true ds -> wf_nelist wf_field_definition f ->
+  not_kw s_implements r -> hk (nk fol_typedef) r -> (is_block f = false -> hk (nk [K_BRACE_L]) r) ->
+  run (K n i ds (attr_list f)) r b r' ->
+  run (n0 <- name 0 ;; i0 <- implements_interfaces 0 ;; ds0 <- directives 0 true ;;
+       f0 <- fields_definition 0 ;; K n0 i0 ds0 f0)
+      (toks_name n ++ toks_implements i ++ toks_directives ds ++ toks_fields f ++ r) b r'.
+Proof.
+  intros [nv] Hi Hds Hf Hk Hr Hb HK. cbn [toks_name app].
+  assert (Htail : forall ks, nk ks (K_AT, []) = true -> nk ks (K_BRACE_L, []) = true ->
+             hk (nk ks) r -> hk (nk ks) (toks_directives ds ++ toks_fields f ++ r)).
+  { intros ks H1 H2 H3. apply (hk_directives_nk true); [exact Hds|exact H1|].
+    eapply hk_block_nk; [exact Hf|exact H2|exact H3]. }
+  eapply run_bind.
+  { apply run_name. unfold hk. apply implements_head; [exact Hi|reflexivity|].
+    apply (Htail [K_LEXERR]); [reflexivity|reflexivity|]. eapply hk_nk_incl; [|exact Hr]. reflexivity. }
+  eapply run_bind.
+  { apply rt_implements; [exact Hi| |].
+    - unfold not_kw.
+      destruct Hds as [|y l [yn ya Hyn Hya] Hl]; [|reflexivity].
+      destruct Hf as [|z l' Hz Hl']; [exact Hk|reflexivity].
+    - apply Htail; [reflexivity|reflexivity|]. eapply hk_nk_incl; [|exact Hr]. reflexivity. }
+  eapply run_bind.
+  { apply rt_directives; [exact Hds|].
+    eapply hk_block_nk; [exact Hf|reflexivity|]. eapply hk_nk_incl; [|exact Hr]. reflexivity. }
+  eapply run_bind.
+  { apply rt_fields_definition; [exact Hf| |exact Hb]. eapply hk_nk_incl; [|exact Hr]. reflexivity. }
+  exact HK.
+Qed.
+
+Lemma rt_object_type_definition n d ds i f r :
+  wf_name n -> wf_description d -> wf_directives true ds -> wf_nelist wf_named_type i ->
+  wf_nelist wf_field_definition f -> not_kw s_implements r -> hk (nk fol_typedef) r ->
+  (is_block f = false -> hk (nk [K_BRACE_L]) r) ->
+  run (object_type_definition 0) (toks_type_system (Nd KObjectTypeDefinition [ANode n; d; ds; i; f]) ++ r)
+      (Nd KObjectTypeDefinition [ANode n; d; ds; i; f]) r.
+Proof.
+  intros Hn Hd Hds Hi Hf Hk Hr Hb. cbn [toks_type_system]. norm. unfold object_type_definition.
+  eapply run_bind; [apply rt_description; [exact Hd|reflexivity]|].
+  eapply run_bind; [apply run_expect_keyword; destruct Hn as [nv]; reflexivity|].
+  apply run_object_body; try assumption.
+  rewrite (oattr_attr_list _ _ Hf). apply run_ret.
+Qed.
+
+Lemma rt_interface_type_definition n d ds i f r :
+  wf_name n -> wf_description d -> wf_directives true ds -> wf_nelist wf_named_type i ->
+  wf_nelist wf_field_definition f -> not_kw s_implements r -> hk (nk fol_typedef) r ->
+  (is_block f = false -> hk (nk [K_BRACE_L]) r) ->
+  run (interface_type_definition 0) (toks_type_system (Nd KInterfaceTypeDefinition [ANode n; d; ds; i; f]) ++ r)
+      (Nd KInterfaceTypeDefinition [ANode n; d; ds; i; f]) r.
+Proof.
+  intros Hn Hd Hds Hi Hf Hk Hr Hb. cbn [toks_type_system]. norm. unfold interface_type_definition.
+  eapply run_bind; [apply rt_description; [exact Hd|reflexivity]|].
+  eapply run_bind; [apply run_expect_keyword; destruct Hn as [nv]; reflexivity|].
+  apply run_object_body; try assumption.
+  rewrite (oattr_attr_list _ _ Hf). apply run_ret.
+Qed.
+
+(* union member types *)
+Lemma rt_union_member_types ts r :
+  wf_nelist wf_named_type ts -> hk (nk [K_PIPE; K_LEXERR; K_EQUALS]) r ->
+  run (union_member_types 0) (toks_union_types ts ++ r) ts r.
+Proof.
+  intros [|x l Hx Hl] Hr; unfold union_member_types.
+  - cbn [toks_union_types toks_delimited app].
+    eapply run_bind; [apply run_eot_no; apply (hk_neq _ _ K_EQUALS Hr eq_refl)|]. apply run_ret.
+  - cbn [toks_union_types toks_delimited]. norm.
+    eapply run_bind.
+    { apply run_eot_yes; [reflexivity|].
+      destruct l as [|z l']; [apply hk_named_type_nk; [exact Hx|reflexivity]|].
+      change (toks_sep K_PIPE toks_type (x :: z :: l')) with (toks_type x ++ pt K_PIPE :: toks_sep K_PIPE toks_type (z :: l')).
+      rewrite <- app_assoc. apply hk_named_type_nk; [exact Hx|reflexivity]. }
+    cbv iota. eapply run_bind; [|apply run_ret].
+    apply (rt_delimited_many (named_type 0) toks_type wf_named_type [K_LEXERR]); try reflexivity; try assumption.
+    + intros y r0 Hy Hr0. apply rt_named_type; assumption.
+    + intros y r0 Hy. apply hk_named_type_nk; [exact Hy|reflexivity].
+    + eapply hk_nk_incl; [|exact Hr]. reflexivity.
+Qed.
+
+Lemma hk_union_types_nk ts r ks : wf_nelist wf_named_type ts -> nk ks (K_EQUALS, []) = true ->
+  hk (nk ks) r -> hk (nk ks) (toks_union_types ts ++ r).
+Proof. intros [|x l Hx Hl] Hk Hr; [exact Hr|exact Hk]. Qed.
+
+Definition fol_uniondef : list N := [K_LEXERR; K_AT; K_PAREN_L; K_EQUALS; K_PIPE].
+
+Lemma run_union_body {B} n ds ts r (K : node -> attr -> attr -> P B) b r' :
+  wf_name n -> wf_directives true ds -> wf_nelist wf_named_type ts -> hk (nk fol_uniondef) r ->
+  run (K n ds ts) r b r' ->
+  run (n0 <- name 0 ;; ds0 <- directives 0 true ;; ts0 <- union_member_types 0 ;; K n0 ds0 ts0)
+      (toks_name n ++ toks_directives ds ++ toks_union_types ts ++ r) b r'.
+Proof.
+  intros [nv] Hds Hts Hr HK. cbn [toks_name app].
+  eapply run_bind.
+  { apply run_name. apply (hk_directives_nk true); [exact Hds|reflexivity|].
+    apply hk_union_types_nk; [exact Hts|reflexivity|]. eapply hk_nk_incl; [|exact Hr]. reflexivity. }
+  eapply run_bind.
+  { apply rt_directives; [exact Hds|].
+    apply hk_union_types_nk; [exact Hts|reflexivity|]. eapply hk_nk_incl; [|exact Hr]. reflexivity. }
+  eapply run_bind; [apply rt_union_member_types; [exact Hts|]|exact HK].
+  eapply hk_nk_incl; [|exact Hr]. reflexivity.
+Qed.
+
+Lemma rt_union_type_definition n d ds ts r :
+  wf_name n -> wf_description d -> wf_directives true ds -> wf_nelist wf_named_type ts ->
+  hk (nk fol_uniondef) r ->
+  run (union_type_definition 0) (toks_type_system (Nd KUnionTypeDefinition [ANode n; d; ds; ts]) ++ r)
+      (Nd KUnionTypeDefinition [ANode n; d; ds; ts]) r.
+Proof.
+  intros Hn Hd Hds Hts Hr. cbn [toks_type_system]. norm. unfold union_type_definition.
+  eapply run_bind; [apply rt_description; [exact Hd|reflexivity]|].
+  eapply run_bind; [apply run_expect_keyword; destruct Hn as [nv]; reflexivity|].
+  apply run_union_body; try assumption. apply run_ret.
+Qed.
+
+(* enum values *)
+Lemma rt_enum_value_definition x r : wf_enum_value_definition x -> hk (nk fol_directives) r ->
+  run (enum_value_definition 0) (toks_enum_value_definition x ++ r) x r.
+Proof.
+  intros [n d ds [nv (H1 & H2 & H3)] Hd Hds] Hr. cbn [toks_enum_value_definition toks_name]. norm.
+  unfold enum_value_definition.
+  eapply run_bind; [apply rt_description; [exact Hd|reflexivity]|].
+  eapply run_bind.
+  { unfold enum_value_name. apply run_cur. cbn [tok_at snd nm]. rewrite H1, H2, H3. cbn [orb].
+    apply run_name. apply (hk_directives_nk true); [exact Hds|reflexivity|].
+    eapply hk_nk_incl; [|exact Hr]. reflexivity. }
+  eapply run_bind; [apply rt_directives; [exact Hds|exact Hr]|]. apply run_ret.
+Qed.
+
+Lemma enum_value_definition_first x r ks : wf_enum_value_definition x -> avoids first_of_described ks = true ->
+  hk (nk ks) (toks_enum_value_definition x ++ r).
+Proof.
+  intros [n d ds [nv Hnv] Hd Hds] H. cbn [toks_enum_value_definition toks_name]. norm.
+  unfold hk. destruct Hd as [|s [sv b]].
+  - cbn [toks_description toks_opt app tok_at]. eapply avoids_nk; [exact H|reflexivity].
+  - cbn [toks_description toks_opt toks_value app tok_at]. destruct b; (eapply avoids_nk; [exact H|reflexivity]).
+Qed.
+
+Lemma rt_enum_values_definition a r : wf_nelist wf_enum_value_definition a -> hk nle r -> (is_block a = false -> hk (nk [K_BRACE_L]) r) ->
+  run (enum_values_definition 0) (toks_enum_values a ++ r) (attr_list a) r.
+Proof.
+  intros W Hr Ho. unfold enum_values_definition, toks_enum_values.
+  apply (rt_optional_many_gen (enum_value_definition 0) toks_enum_value_definition wf_enum_value_definition fol_directives);
+    try reflexivity; try assumption.
+  - intros x r0 Hx Hr0. apply rt_enum_value_definition; assumption.
+  - intros x r0 Hx. apply enum_value_definition_first; [exact Hx|reflexivity].
+Qed.
+
+Definition fol_blockdef : list N := [K_LEXERR; K_AT; K_PAREN_L].
+
+(* name, directives and an optional block: enum / input object definitions and extensions *)
+Lemma run_block_body {B} (pb : P (option (list node))) (Pn : node -> Prop) (tb : node -> list sigtok)
+      n ds f r (K : node -> attr -> option (list node) -> P B) b r' :
+  (forall a r0, wf_nelist Pn a -> hk nle r0 -> (is_block a = false -> hk (nk [K_BRACE_L]) r0) ->
+                run pb (toks_block K_BRACE_L tb K_BRACE_R a ++ r0) (attr_list a) r0) ->
+  wf_name n -> wf_directives true ds -> wf_nelist Pn f -> hk (nk fol_blockdef) r ->
+  (is_block f = false -> hk (nk [K_BRACE_L]) r) ->
+  run (K n ds (attr_list f)) r b r' ->
+  run (n0 <- name 0 ;; ds0 <- directives 0 true ;; f0 <- pb ;; K n0 ds0 f0)
+      (toks_name n ++ toks_directives ds ++ toks_block K_BRACE_L tb K_BRACE_R f ++ r) b r'.
+Proof.
+  intros Hpb [nv] Hds Hf Hr Hb HK. cbn [toks_name app].
+  eapply run_bind.
+  { apply run_name. apply (hk_directives_nk true); [exact Hds|reflexivity|].
+    eapply hk_block_nk; [exact Hf|reflexivity|]. eapply hk_nk_incl; [|exact Hr]. reflexivity. }
+  eapply run_bind.
+  { apply rt_directives; [exact Hds|].
+    eapply hk_block_nk; [exact Hf|reflexivity|]. eapply hk_nk_incl; [|exact Hr]. reflexivity. }
+  eapply run_bind; [apply Hpb; [exact Hf| |exact Hb]|exact HK].
+  eapply hk_nk_incl; [|exact Hr]. reflexivity.
+Qed.
+
+Lemma rt_enum_type_definition n d ds vs r :
+  wf_name n -> wf_description d -> wf_directives true ds -> wf_nelist wf_enum_value_definition vs ->
+  hk (nk fol_blockdef) r -> (is_block vs = false -> hk (nk [K_BRACE_L]) r) ->
+  run (enum_type_definition 0) (toks_type_system (Nd KEnumTypeDefinition [ANode n; d; ds; vs]) ++ r)
+      (Nd KEnumTypeDefinition [ANode n; d; ds; vs]) r.
+Proof.
+  intros Hn Hd Hds Hvs Hr Hb. cbn [toks_type_system]. norm. unfold enum_type_definition.
+  eapply run_bind; [apply rt_description; [exact Hd|reflexivity]|].
+  eapply run_bind; [apply run_expect_keyword; destruct Hn as [nv]; reflexivity|].
+  unfold toks_enum_values.
+  apply (run_block_body (enum_values_definition 0) wf_enum_value_definition); try assumption.
+  - intros a r0 Ha Hr0 Hb0. apply rt_enum_values_definition; assumption.
+  - rewrite (oattr_attr_list _ _ Hvs). apply run_ret.
+Qed.
+
+Lemma rt_input_object_type_definition n d ds f r :
+  wf_name n -> wf_description d -> wf_directives true ds -> wf_nelist wf_input_value_definition f ->
+  hk (nk fol_blockdef) r -> (is_block f = false -> hk (nk [K_BRACE_L]) r) ->
+  run (input_object_type_definition 0) (toks_type_system (Nd KInputObjectTypeDefinition [ANode n; d; ds; f]) ++ r)
+      (Nd KInputObjectTypeDefinition [ANode n; d; ds; f]) r.
+Proof.
+  intros Hn Hd Hds Hf Hr Hb. cbn [toks_type_system]. norm. unfold input_object_type_definition.
+  eapply run_bind; [apply rt_description; [exact Hd|reflexivity]|].
+  eapply run_bind; [apply run_expect_keyword; destruct Hn as [nv]; reflexivity|].
+  unfold toks_input_fields.
+  apply (run_block_body (input_fields_definition 0) wf_input_value_definition); try assumption.
+  - intros a r0 Ha Hr0 Hb0. apply rt_input_fields_definition; assumption.
+  - rewrite (oattr_attr_list _ _ Hf). apply run_ret.
+Qed.
+
+(* directive definitions *)
+Lemma rt_directive_location x r : wf_location x -> hk nle r ->
+  run (directive_location 0) (toks_name x ++ r) x r.
+Proof.
+  intros [v Hv] Hr. cbn [toks_name app]. unfold directive_location.
+  eapply run_bind; [apply run_expect_token; [reflexivity|exact Hr]|]. rewrite Hv. apply run_ret.
+Qed.
+
+Lemma toks_directive_def n ls d a ds rp :
+  toks_type_system (Nd KDirectiveDefinition [ANode n; AList ls; d; a; ds; ABool rp]) =
+  toks_description d ++ nm s_directive :: pt K_AT :: toks_name n ++
+  toks_block K_PAREN_L toks_input_value_definition K_PAREN_R a ++
+  toks_directives ds ++ (if rp then [nm s_repeatable] else []) ++
+  nm s_on :: toks_sep K_PIPE toks_name ls.
+Proof. reflexivity. Qed.
+
+Lemma rt_directive_definition n ls d a ds rp r :
+  wf_name n -> wf_list1 wf_location ls -> wf_description d -> wf_nelist wf_input_value_definition a ->
+  (if xdd then wf_directives true ds else ds = ANone) -> hk (nk [K_PIPE; K_LEXERR]) r ->
+  run (directive_definition 0 xdd) (toks_type_system (Nd KDirectiveDefinition [ANode n; ls; d; a; ds; ABool rp]) ++ r)
+      (Nd KDirectiveDefinition [ANode n; ls; d; a; ds; ABool rp]) r.
+Proof.
+  intros [nv] [x l Hx Hl] Hd Ha Hds Hr. rewrite toks_directive_def. cbn [toks_name]. norm.
+  unfold directive_definition.
+  eapply run_bind; [apply rt_description; [exact Hd|reflexivity]|].
+  eapply run_bind; [apply run_expect_keyword; reflexivity|].
+  eapply run_bind; [apply run_expect_token; reflexivity|].
+  assert (Hrest : forall ks, nk ks (K_NAME, []) = true ->
+            hk (nk ks) ((if rp then [nm s_repeatable] else []) ++ nm s_on :: toks_sep K_PIPE toks_name (x :: l) ++ r)).
+  { intros ks H. destruct rp; exact H. }
+  assert (Hds' : wf_directives true ds) by (destruct xdd; [exact Hds|subst ds; constructor]).
+  eapply run_bind.
+  { apply run_name. eapply hk_block_nk; [exact Ha|reflexivity|].
+    apply (hk_directives_nk true); [exact Hds'|reflexivity|]. apply Hrest. reflexivity. }
+  eapply run_bind.
+  { apply rt_argument_defs; [exact Ha|].
+    apply (hk_directives_nk true); [exact Hds'|reflexivity|]. apply Hrest. reflexivity. }
+  eapply run_bind.
+  { instantiate (1 := (if rp then [nm s_repeatable] else []) ++ nm s_on :: toks_sep K_PIPE toks_name (x :: l) ++ r).
+    instantiate (1 := ds).
+    destruct xdd.
+    - apply rt_directives; [exact Hds|]. apply Hrest. reflexivity.
+    - subst ds. apply run_ret. }
+  eapply run_bind.
+  { instantiate (1 := nm s_on :: toks_sep K_PIPE toks_name (x :: l) ++ r). instantiate (1 := rp).
+    destruct rp.
+    - cbn [app]. apply run_eokw_yes. reflexivity.
+    - cbn [app]. apply run_eokw_no. reflexivity. }
+  eapply run_bind.
+  { apply run_expect_keyword.
+    destruct Hx as [xv Hxv]. destruct l; reflexivity. }
+  eapply run_bind.
+  { apply (rt_delimited_many (directive_location 0) toks_name wf_location [K_LEXERR]); try reflexivity; try assumption.
+    - intros y r0 Hy Hr0. apply rt_directive_location; assumption.
+    - intros y r0 [yv Hyv]. reflexivity. }
+  rewrite (oattr_attr_list _ _ Ha). apply run_ret.
+Qed.
+
+(* ---------- extensions ---------- *)
+Lemma present1 a : some_present [a] -> attr_empty a = false.
+Proof. unfold some_present. cbn [existsb]. destruct (attr_empty a); cbn; congruence. Qed.
+Lemma present2 a b : some_present [a; b] -> attr_empty a && attr_empty b = false.
+Proof. unfold some_present. cbn [existsb]. destruct (attr_empty a), (attr_empty b); cbn; congruence. Qed.
+Lemma present3 a b c : some_present [a; b; c] -> attr_empty a && attr_empty b && attr_empty c = false.
+Proof.
+  unfold some_present. cbn [existsb]. destruct (attr_empty a), (attr_empty b), (attr_empty c); cbn; congruence.
+Qed.
+
+Lemma rt_operation_types_opt a r : wf_nelist wf_operation_type_definition a -> hk nle r ->
+  (is_block a = false -> hk (nk [K_BRACE_L]) r) ->
+  run (optional_many 0 K_BRACE_L (operation_type_definition 0) K_BRACE_R) (toks_operation_types a ++ r) (attr_list a) r.
+Proof.
+  intros W Hr Hbk. unfold toks_operation_types.
+  apply (rt_optional_many_gen (operation_type_definition 0) toks_operation_type_definition wf_operation_type_definition [K_LEXERR]);
+    try reflexivity; try assumption.
+  - intros x r0 Hx Hr0. apply rt_operation_type_definition; assumption.
+  - intros x r0 [o t Ho Ht]. reflexivity.
+Qed.
+
+Lemma rt_schema_extension ds ots r :
+  wf_directives true ds -> wf_nelist wf_operation_type_definition ots -> some_present [ds; ots] ->
+  hk (nk fol_blockdef) r -> (is_block ots = false -> hk (nk [K_BRACE_L]) r) ->
+  run (schema_extension 0) (toks_extension (Nd KSchemaExtension [ds; ots]) ++ r) (Nd KSchemaExtension [ds; ots]) r.
+Proof.
+  intros Hds Hots Hp Hr Hb. cbn [toks_extension]. norm. unfold schema_extension.
+  eapply run_bind; [apply run_expect_keyword; reflexivity|].
+  eapply run_bind.
+  { apply run_expect_keyword. apply (hk_directives_nk true); [exact Hds|reflexivity|].
+    eapply hk_block_nk; [exact Hots|reflexivity|]. eapply hk_nk_incl; [|exact Hr]. reflexivity. }
+  eapply run_bind.
+  { apply rt_directives; [exact Hds|].
+    eapply hk_block_nk; [exact Hots|reflexivity|]. eapply hk_nk_incl; [|exact Hr]. reflexivity. }
+  eapply run_bind.
+  { apply rt_operation_types_opt; [exact Hots| |exact Hb]. eapply hk_nk_incl; [|exact Hr]. reflexivity. }
+  rewrite (oattr_attr_list _ _ Hots). rewrite (present2 _ _ Hp). apply run_ret.
+Qed.
+
+Lemma rt_scalar_type_extension n ds r :
+  wf_name n -> wf_directives true ds -> some_present [ds] -> hk (nk fol_directives) r ->
+  run (scalar_type_extension 0) (toks_extension (Nd KScalarTypeExtension [ANode n; ds]) ++ r)
+      (Nd KScalarTypeExtension [ANode n; ds]) r.
+Proof.
+  intros [nv] Hds Hp Hr. cbn [toks_extension toks_name]. norm. unfold scalar_type_extension.
+  eapply run_bind; [apply run_expect_keyword; reflexivity|].
+  eapply run_bind; [apply run_expect_keyword; reflexivity|].
+  eapply run_bind.
+  { apply run_name. apply (hk_directives_nk true); [exact Hds|reflexivity|].
+    eapply hk_nk_incl; [|exact Hr]. reflexivity. }
+  eapply run_bind; [apply rt_directives; [exact Hds|exact Hr]|].
+  rewrite (present1 _ Hp). apply run_ret.
+Qed.
+
+Lemma rt_object_type_extension n ds i f r :
+  wf_name n -> wf_directives true ds -> wf_nelist wf_named_type i -> wf_nelist wf_field_definition f ->
+  some_present [i; ds; f] -> not_kw s_implements r -> hk (nk fol_typedef) r ->
+  (is_block f = false -> hk (nk [K_BRACE_L]) r) ->
+  run (object_type_extension 0) (toks_extension (Nd KObjectTypeExtension [ANode n; ds; i; f]) ++ r)
+      (Nd KObjectTypeExtension [ANode n; ds; i; f]) r.
+Proof.
+  intros Hn Hds Hi Hf Hp Hk Hr Hb. cbn [toks_extension]. norm. unfold object_type_extension.
+  eapply run_bind; [apply run_expect_keyword; reflexivity|].
+  eapply run_bind; [apply run_expect_keyword; destruct Hn as [nv]; reflexivity|].
+  apply run_object_body; try assumption.
+  rewrite (oattr_attr_list _ _ Hf). rewrite (present3 _ _ _ Hp). apply run_ret.
+Qed.
+
+Lemma rt_interface_type_extension n ds i f r :
+  wf_name n -> wf_directives true ds -> wf_nelist wf_named_type i -> wf_nelist wf_field_definition f ->
+  some_present [i; ds; f] -> not_kw s_implements r -> hk (nk fol_typedef) r ->
+  (is_block f = false -> hk (nk [K_BRACE_L]) r) ->
+  run (interface_type_extension 0) (toks_extension (Nd KInterfaceTypeExtension [ANode n; ds; i; f]) ++ r)
+      (Nd KInterfaceTypeExtension [ANode n; ds; i; f]) r.
+Proof.
+  intros Hn Hds Hi Hf Hp Hk Hr Hb. cbn [toks_extension]. norm. unfold interface_type_extension.
+  eapply run_bind; [apply run_expect_keyword; reflexivity|].
+  eapply run_bind; [apply run_expect_keyword; destruct Hn as [nv]; reflexivity|].
+  apply run_object_body; try assumption.
+  rewrite (oattr_attr_list _ _ Hf). rewrite (present3 _ _ _ Hp). apply run_ret.
+Qed.
+
+Lemma rt_union_type_extension n ds ts r :
+  wf_name n -> wf_directives true ds -> wf_nelist wf_named_type ts -> some_present [ds; ts] ->
+  hk (nk fol_uniondef) r ->
+  run (union_type_extension 0) (toks_extension (Nd KUnionTypeExtension [ANode n; ds; ts]) ++ r)
+      (Nd KUnionTypeExtension [ANode n; ds; ts]) r.
+Proof.
+  intros Hn Hds Hts Hp Hr. cbn [toks_extension]. norm. unfold union_type_extension.
+  eapply run_bind; [apply run_expect_keyword; reflexivity|].
+  eapply run_bind; [apply run_expect_keyword; destruct Hn as [nv]; reflexivity|].
+  apply run_union_body; try assumption.
+  rewrite (present2 _ _ Hp). apply run_ret.
+Qed.
+
+Lemma rt_enum_type_extension n ds vs r :
+  wf_name n -> wf_directives true ds -> wf_nelist wf_enum_value_definition vs -> some_present [ds; vs] ->
+  hk (nk fol_blockdef) r -> (is_block vs = false -> hk (nk [K_BRACE_L]) r) ->
+  run (enum_type_extension 0) (toks_extension (Nd KEnumTypeExtension [ANode n; ds; vs]) ++ r)
+      (Nd KEnumTypeExtension [ANode n; ds; vs]) r.
+Proof.
+  intros Hn Hds Hvs Hp Hr Hb. cbn [toks_extension]. norm. unfold enum_type_extension.
+  eapply run_bind; [apply run_expect_keyword; reflexivity|].
+  eapply run_bind; [apply run_expect_keyword; destruct Hn as [nv]; reflexivity|].
+  unfold toks_enum_values.
+  apply (run_block_body (enum_values_definition 0) wf_enum_value_definition); try assumption.
+  - intros a r0 Ha Hr0 Hb0. apply rt_enum_values_definition; assumption.
+  - rewrite (oattr_attr_list _ _ Hvs). rewrite (present2 _ _ Hp). apply run_ret.
+Qed.
+
+Lemma rt_input_object_type_extension n ds f r :
+  wf_name n -> wf_directives true ds -> wf_nelist wf_input_value_definition f -> some_present [ds; f] ->
+  hk (nk fol_blockdef) r -> (is_block f = false -> hk (nk [K_BRACE_L]) r) ->
+  run (input_object_type_extension 0) (toks_extension (Nd KInputObjectTypeExtension [ANode n; ds; f]) ++ r)
+      (Nd KInputObjectTypeExtension [ANode n; ds; f]) r.
+Proof.
+  intros Hn Hds Hf Hp Hr Hb. cbn [toks_extension]. norm. unfold input_object_type_extension.
+  eapply run_bind; [apply run_expect_keyword; reflexivity|].
+  eapply run_bind; [apply run_expect_keyword; destruct Hn as [nv]; reflexivity|].
+  unfold toks_input_fields.
+  apply (run_block_body (input_fields_definition 0) wf_input_value_definition); try assumption.
+  - intros a r0 Ha Hr0 Hb0. apply rt_input_fields_definition; assumption.
+  - rewrite (oattr_attr_list _ _ Hf). rewrite (present2 _ _ Hp). apply run_ret.
+Qed.
+
+Lemma rt_directive_definition_extension n ds r :
+  wf_name n -> wf_directives true ds -> some_present [ds] -> hk (nk fol_directives) r ->
+  run (directive_definition_extension 0) (toks_extension (Nd KDirectiveExtension [ANode n; ds]) ++ r)
+      (Nd KDirectiveExtension [ANode n; ds]) r.
+Proof.
+  intros [nv] Hds Hp Hr. cbn [toks_extension toks_name]. norm. unfold directive_definition_extension.
+  eapply run_bind; [apply run_expect_keyword; reflexivity|].
+  eapply run_bind; [apply run_expect_keyword; reflexivity|].
+  eapply run_bind; [apply run_expect_token; reflexivity|].
+  eapply run_bind.
+  { apply run_name. apply (hk_directives_nk true); [exact Hds|reflexivity|].
+    eapply hk_nk_incl; [|exact Hr]. reflexivity. }
+  eapply run_bind; [apply rt_directives; [exact Hds|exact Hr]|].
+  rewrite (present1 _ Hp). apply run_ret.
+Qed.
+
+(* ---------- definitions ---------- *)
+Definition def_keywords : list (list N) :=
+  [s_schema; s_scalar; s_type; s_interface; s_union; s_enum; s_input; s_directive;
+   s_query; s_mutation; s_subscription; s_fragment; s_extend].
+
+(* first token of a definition, or EOF *)
+Definition dstart (t : sigtok) : bool :=
+  (fst t =? K_EOF)%N || (fst t =? K_STRING)%N || (fst t =? K_BLOCK_STRING)%N || (fst t =? K_BRACE_L)%N ||
+  ((fst t =? K_NAME)%N && existsb (seqb (snd t)) def_keywords).
+
+Definition dstart_kinds : list N := [K_EOF; K_STRING; K_BLOCK_STRING; K_BRACE_L; K_NAME].
+
+Lemma dstart_kind t : dstart t = true -> existsb (N.eqb (fst t)) dstart_kinds = true.
+Proof.
+  unfold dstart, dstart_kinds. cbn [existsb].
+  destruct (fst t =? K_EOF)%N, (fst t =? K_STRING)%N, (fst t =? K_BLOCK_STRING)%N, (fst t =? K_BRACE_L)%N,
+    (fst t =? K_NAME)%N; cbn; try reflexivity; discriminate.
+Qed.
+
+Lemma dstart_nk ks t : dstart t = true ->
+  forallb (fun k => negb (existsb (N.eqb k) dstart_kinds)) ks = true -> nk ks t = true.
+Proof.
+  intros H1 H2. apply dstart_kind in H1. unfold nk. apply negb_true_iff.
+  destruct (existsb (N.eqb (fst t)) ks) eqn:E; [|reflexivity].
+  apply existsb_exists in E as (k & Hin & Hk). apply N.eqb_eq in Hk. subst k.
+  rewrite forallb_forall in H2. apply H2 in Hin. rewrite H1 in Hin. discriminate.
+Qed.
+
+Lemma dstart_not_implements t : dstart t = true -> is_keyword t s_implements = false.
+Proof.
+  unfold dstart, is_keyword. destruct t as [k v]. cbn [fst snd].
+  destruct (k =? K_NAME)%N eqn:E; [|reflexivity]. apply N.eqb_eq in E. subst k. cbn [andb].
+  intros H. destruct (seqb v s_implements) eqn:E2; [|reflexivity]. exfalso.
+  apply nat_list_eqb_eq in E2. subst v. vm_compute in H. exact (Bool.diff_false_true H).
+Qed.
+
+Definition dfol (d : node) (r : list sigtok) : Prop :=
+  dstart (tok_at r) = true /\ (ends_with_block d = false -> (kind_at r =? K_BRACE_L)%N = false).
+
+Lemma dfol_nk d r ks : dfol d r ->
+  forallb (fun k => negb (existsb (N.eqb k) dstart_kinds)) ks = true -> hk (nk ks) r.
+Proof. intros [H _] Hk. apply dstart_nk; assumption. Qed.
+
+Lemma dfol_brace d r : dfol d r -> ends_with_block d = false -> hk (nk [K_BRACE_L]) r.
+Proof.
+  intros [_ H] Hb. specialize (H Hb). unfold hk, nk. cbn [existsb]. unfold kind_at in H. rewrite H. reflexivity.
+Qed.
+
+Lemma dfol_not_implements d r : dfol d r -> not_kw s_implements r.
+Proof. intros [H _]. apply dstart_not_implements. exact H. Qed.
+
+Ltac kcbv :=
+  cbv beta iota zeta delta [N.eqb Pos.eqb fst snd tok_at nm pt kind_at peek_description andb orb negb
+    K_SOF K_EOF K_BANG K_DOLLAR K_AMP K_PAREN_L K_PAREN_R K_DOT K_SPREAD K_COLON K_EQUALS K_AT
+    K_BRACKET_L K_BRACKET_R K_BRACE_L K_PIPE K_BRACE_R K_NAME K_INT K_FLOAT K_STRING K_BLOCK_STRING
+    K_COMMENT K_LEXERR].
+
+(* the keyword dispatch of parse_definition *)
+Definition kw_body (v : list N) : option (P node) :=
+  if seqb v s_schema then Some (schema_definition 0)
+  else if seqb v s_scalar then Some (scalar_type_definition 0)
+  else if seqb v s_type then Some (object_type_definition 0)
+  else if seqb v s_interface then Some (interface_type_definition 0)
+  else if seqb v s_union then Some (union_type_definition 0)
+  else if seqb v s_enum then Some (enum_type_definition 0)
+  else if seqb v s_input then Some (input_object_type_definition 0)
+  else if seqb v s_directive then Some (directive_definition 0 xdd)
+  else if seqb v s_query || seqb v s_mutation || seqb v s_subscription
+  then Some (operation_definition 0 xfa)
+  else if seqb v s_fragment then Some (fragment_definition 0 xfa)
+  else None.
+
+Lemma definition_dispatch d kw rest body :
+  wf_description d -> kw_body kw = Some body ->
+  definition 0 xfa xdd (toks_description d ++ nm kw :: rest) = body (toks_description d ++ nm kw :: rest).
+Proof.
+  intros Hd Hb. unfold kw_body in Hb. cbv beta iota delta [orb andb] in Hb.
+  destruct Hd as [|s [sv b]].
+  - cbn [toks_description toks_opt app]. unfold definition, bind, cur, ret.
+    kcbv.
+    repeat match type of Hb with
+           | (if ?c then _ else _) = _ => destruct c
+           end; first [discriminate Hb | inversion Hb; subst; reflexivity].
+  - cbn [toks_description toks_opt toks_value app]. unfold definition, bind, cur, look, ret.
+    destruct b; kcbv;
+      (repeat match type of Hb with
+              | (if ?c then _ else _) = _ => destruct c
+              end; first [discriminate Hb | inversion Hb; subst; reflexivity]).
+Qed.
+
+Lemma definition_dispatch_extend rest :
+  definition 0 xfa xdd (nm s_extend :: rest) = type_system_extension 0 xdd (nm s_extend :: rest).
+Proof. reflexivity. Qed.
+
+Lemma extension_dispatch kw rest body :
+  (if seqb kw s_schema then Some (schema_extension 0)
+   else if seqb kw s_scalar then Some (scalar_type_extension 0)
+   else if seqb kw s_type then Some (object_type_extension 0)
+   else if seqb kw s_interface then Some (interface_type_extension 0)
+   else if seqb kw s_union then Some (union_type_extension 0)
+   else if seqb kw s_enum then Some (enum_type_extension 0)
+   else if seqb kw s_input then Some (input_object_type_extension 0)
+   else if seqb kw s_directive && xdd then Some (directive_definition_extension 0)
+   else None) = Some body ->
+  type_system_extension 0 xdd (nm s_extend :: nm kw :: rest) = body (nm s_extend :: nm kw :: rest).
+Proof.
+  intros Hb. cbv beta iota delta [orb andb] in Hb. unfold type_system_extension, bind, look.
+  kcbv.
+  repeat match type of Hb with
+         | (if ?c then _ else _) = _ => destruct c
+         end; first [discriminate Hb | inversion Hb; subst; reflexivity].
+Qed.
+
+Lemma is_shorthand_true d n vs ds o : is_shorthand d n vs ds o = true ->
+  d = ANone /\ n = ANone /\ vs = ANone /\ ds = ANone /\ o = 0%N.
+Proof.
+  unfold is_shorthand. destruct d, n, vs, ds; try discriminate. intros H. apply N.eqb_eq in H. auto.
+Qed.
+
+Lemma kw_body_operation o : wf_operation_code o -> kw_body (op_name o) = Some (operation_definition 0 xfa).
+Proof. intros [-> | [-> | ->]]; reflexivity. Qed.
+
+Ltac from_dfol H :=
+  first [ apply (dfol_nk _ _ _ H); reflexivity
+        | apply (dfol_not_implements _ _ H)
+        | intros Hblk; apply (dfol_brace _ _ H); exact Hblk ].
+
+Lemma rt_definition x r : wf_definition xfa xdd x -> dfol x r ->
+  run (definition 0 xfa xdd) (toks_definition x ++ r) x r.
+Proof.
+  intros W Hf. destruct W as [x W|x W|x W|x W].
+  - (* operation *)
+    destruct W as [s d n vs ds o Hs Hd Hn Hvs Hds Ho].
+    cbn [toks_definition toks_operation]. destruct (is_shorthand d n vs ds o) eqn:Esh.
+    + apply is_shorthand_true in Esh as (-> & -> & -> & -> & ->).
+      destruct (toks_selection_set_cons s Hs) as [tl Etl].
+      unfold definition. apply run_cur. rewrite Etl at 1. cbn [app tok_at fst pt]. keq.
+      apply rt_operation_short; [exact Hs|from_dfol Hf].
+    + change (toks_description d ++ nm (op_name o) :: toks_opt toks_name n ++
+              toks_variable_definitions vs ++ toks_directives ds ++ toks_selection_set s)
+        with (full_operation_toks s d n vs ds o).
+      pose proof (rt_operation_full s d n vs ds o r Hs Hd Hn Hvs Hds Ho ltac:(from_dfol Hf)) as R.
+      unfold full_operation_toks in *. revert R. norm. intros R. unfold run.
+      rewrite (definition_dispatch d (op_name o) _ _ Hd (kw_body_operation o Ho)). exact R.
+  - (* fragment *)
+    pose proof (rt_fragment_definition x r W ltac:(from_dfol Hf)) as R.
+    destruct W as [s d n vs ds tc Hs Hd Hn Hvs Hds Htc].
+    cbn [toks_definition]. rewrite toks_fragdef in *. revert R. norm. intros R. unfold run.
+    rewrite (definition_dispatch d s_fragment _ (fragment_definition 0 xfa) Hd eq_refl). exact R.
+  - (* type system definitions *)
+    destruct W as [d ds ots Hd Hds Hots|n d ds Hn Hd Hds|n d ds i f Hn Hd Hds Hi Hfd|n d ds i f Hn Hd Hds Hi Hfd
+                  |n d ds ts Hn Hd Hds Hts|n d ds vs Hn Hd Hds Hvs|n d ds f Hn Hd Hds Hfd|n ls d a ds rp Hn Hls Hd Ha Hds].
+    + pose proof (rt_schema_definition d ds ots r Hd Hds Hots ltac:(from_dfol Hf)) as R.
+      cbn [toks_definition toks_type_system] in *. revert R. norm. intros R. unfold run.
+      rewrite (definition_dispatch d s_schema _ (schema_definition 0) Hd eq_refl). exact R.
+    + pose proof (rt_scalar_type_definition n d ds r Hn Hd Hds ltac:(from_dfol Hf)) as R.
+      cbn [toks_definition toks_type_system] in *. revert R. norm. intros R. unfold run.
+      rewrite (definition_dispatch d s_scalar _ (scalar_type_definition 0) Hd eq_refl). exact R.
+    + pose proof (rt_object_type_definition n d ds i f r Hn Hd Hds Hi Hfd ltac:(from_dfol Hf) ltac:(from_dfol Hf)
+                    ltac:(from_dfol Hf)) as R.
+      cbn [toks_definition toks_type_system] in *. revert R. norm. intros R. unfold run.
+      rewrite (definition_dispatch d s_type _ (object_type_definition 0) Hd eq_refl). exact R.
+    + pose proof (rt_interface_type_definition n d ds i f r Hn Hd Hds Hi Hfd ltac:(from_dfol Hf) ltac:(from_dfol Hf)
+                    ltac:(from_dfol Hf)) as R.
+      cbn [toks_definition toks_type_system] in *. revert R. norm. intros R. unfold run.
+      rewrite (definition_dispatch d s_interface _ (interface_type_definition 0) Hd eq_refl). exact R.
+    + pose proof (rt_union_type_definition n d ds ts r Hn Hd Hds Hts ltac:(from_dfol Hf)) as R.
+      cbn [toks_definition toks_type_system] in *. revert R. norm. intros R. unfold run.
+      rewrite (definition_dispatch d s_union _ (union_type_definition 0) Hd eq_refl). exact R.
+    + pose proof (rt_enum_type_definition n d ds vs r Hn Hd Hds Hvs ltac:(from_dfol Hf) ltac:(from_dfol Hf)) as R.
+      cbn [toks_definition toks_type_system] in *. revert R. norm. intros R. unfold run.
+      rewrite (definition_dispatch d s_enum _ (enum_type_definition 0) Hd eq_refl). exact R.
+    + pose proof (rt_input_object_type_definition n d ds f r Hn Hd Hds Hfd ltac:(from_dfol Hf) ltac:(from_dfol Hf)) as R.
+      cbn [toks_definition toks_type_system] in *. revert R. norm. intros R. unfold run.
+      rewrite (definition_dispatch d s_input _ (input_object_type_definition 0) Hd eq_refl). exact R.
+    + pose proof (rt_directive_definition n ls d a ds rp r Hn Hls Hd Ha Hds ltac:(from_dfol Hf)) as R.
+      destruct Hls as [lx ll Hlx Hll].
+      cbn [toks_definition] in *. rewrite toks_directive_def in *. revert R. norm. intros R. unfold run.
+      rewrite (definition_dispatch d s_directive _ (directive_definition 0 xdd) Hd eq_refl). exact R.
+  - (* extensions *)
+    destruct W as [ds ots Hds Hots Hp|n ds Hn Hds Hp|n ds i f Hn Hds Hi Hfd Hp|n ds i f Hn Hds Hi Hfd Hp
+                  |n ds ts Hn Hds Hts Hp|n ds vs Hn Hds Hvs Hp|n ds f Hn Hds Hfd Hp|n ds Hx Hn Hds Hp].
+    + pose proof (rt_schema_extension ds ots r Hds Hots Hp ltac:(from_dfol Hf) ltac:(from_dfol Hf)) as R.
+      cbn [toks_definition toks_extension] in *. revert R. norm. intros R. unfold run in *.
+      rewrite definition_dispatch_extend. rewrite (extension_dispatch s_schema _ (schema_extension 0) eq_refl). exact R.
+    + pose proof (rt_scalar_type_extension n ds r Hn Hds Hp ltac:(from_dfol Hf)) as R.
+      cbn [toks_definition toks_extension] in *. revert R. norm. intros R. unfold run in *.
+      rewrite definition_dispatch_extend. rewrite (extension_dispatch s_scalar _ (scalar_type_extension 0) eq_refl). exact R.
+    + pose proof (rt_object_type_extension n ds i f r Hn Hds Hi Hfd Hp ltac:(from_dfol Hf) ltac:(from_dfol Hf)
+                    ltac:(from_dfol Hf)) as R.
+      cbn [toks_definition toks_extension] in *. revert R. norm. intros R. unfold run in *.
+      rewrite definition_dispatch_extend. rewrite (extension_dispatch s_type _ (object_type_extension 0) eq_refl). exact R.
+    + pose proof (rt_interface_type_extension n ds i f r Hn Hds Hi Hfd Hp ltac:(from_dfol Hf) ltac:(from_dfol Hf)
+                    ltac:(from_dfol Hf)) as R.
+      cbn [toks_definition toks_extension] in *. revert R. norm. intros R. unfold run in *.
+      rewrite definition_dispatch_extend. rewrite (extension_dispatch s_interface _ (interface_type_extension 0) eq_refl). exact R.
+    + pose proof (rt_union_type_extension n ds ts r Hn Hds Hts Hp ltac:(from_dfol Hf)) as R.
+      cbn [toks_definition toks_extension] in *. revert R. norm. intros R. unfold run in *.
+      rewrite definition_dispatch_extend. rewrite (extension_dispatch s_union _ (union_type_extension 0) eq_refl). exact R.
+    + pose proof (rt_enum_type_extension n ds vs r Hn Hds Hvs Hp ltac:(from_dfol Hf) ltac:(from_dfol Hf)) as R.
+      cbn [toks_definition toks_extension] in *. revert R. norm. intros R. unfold run in *.
+      rewrite definition_dispatch_extend. rewrite (extension_dispatch s_enum _ (enum_type_extension 0) eq_refl). exact R.
+    + pose proof (rt_input_object_type_extension n ds f r Hn Hds Hfd Hp ltac:(from_dfol Hf) ltac:(from_dfol Hf)) as R.
+      cbn [toks_definition toks_extension] in *. revert R. norm. intros R. unfold run in *.
+      rewrite definition_dispatch_extend. rewrite (extension_dispatch s_input _ (input_object_type_extension 0) eq_refl). exact R.
+    + pose proof (rt_directive_definition_extension n ds r Hn Hds Hp ltac:(from_dfol Hf)) as R.
+      cbn [toks_definition toks_extension] in *. revert R. norm. intros R. unfold run in *.
+      rewrite definition_dispatch_extend.
+      rewrite (extension_dispatch s_directive _ (directive_definition_extension 0)); [exact R|].
+      rewrite Hx. reflexivity.
+Qed.
+
+(* a short-form query printed with its keyword (after a definition that does not end with a block) *)
+Lemma rt_definition_query x r : wf_definition xfa xdd x -> is_shorthand_operation x = true -> hk nle r ->
+  run (definition 0 xfa xdd) (nm s_query :: toks_definition x ++ r) x r.
+Proof.
+  intros W Hsh Hr. destruct W as [x W|x W|x W|x W].
+  - destruct W as [s d n vs ds o Hs Hd Hn Hvs Hds Ho].
+    cbn [is_shorthand_operation] in Hsh. cbn [toks_definition toks_operation]. rewrite Hsh.
+    apply is_shorthand_true in Hsh as (-> & -> & -> & -> & ->).
+    pose proof (rt_operation_full s ANone ANone ANone ANone 0%N r Hs ltac:(constructor) ltac:(constructor)
+                  ltac:(constructor) ltac:(constructor) ltac:(left; reflexivity) Hr) as R.
+    unfold full_operation_toks in R. cbn [toks_description toks_opt toks_variable_definitions toks_block
+                                           toks_directives toks_list app op_name] in R.
+    unfold run in *.
+    pose proof (definition_dispatch ANone s_query (toks_selection_set s ++ r) (operation_definition 0 xfa)
+                  ltac:(constructor) eq_refl) as E.
+    cbn [toks_description toks_opt app] in E. rewrite E. exact R.
+  - destruct W; discriminate Hsh.
+  - destruct W; discriminate Hsh.
+  - destruct W; discriminate Hsh.
+Qed.
+
+(* first token of a definition *)
+Lemma definition_head x r : wf_definition xfa xdd x ->
+  dstart (tok_at (toks_definition x ++ r)) = true /\
+  (kind_at (toks_definition x ++ r) =? K_EOF)%N = false /\
+  (kind_at (toks_definition x ++ r) =? K_LEXERR)%N = false /\
+  (is_shorthand_operation x = false -> (kind_at (toks_definition x ++ r) =? K_BRACE_L)%N = false).
+Proof.
+  assert (D : forall d kw rest, wf_description d -> dstart (nm kw) = true ->
+            dstart (tok_at (toks_description d ++ nm kw :: rest)) = true /\
+            (kind_at (toks_description d ++ nm kw :: rest) =? K_EOF)%N = false /\
+            (kind_at (toks_description d ++ nm kw :: rest) =? K_LEXERR)%N = false /\
+            (kind_at (toks_description d ++ nm kw :: rest) =? K_BRACE_L)%N = false).
+  { intros d kw rest [|s [sv b]] Hk; [repeat split; try reflexivity; exact Hk|].
+    destruct b; repeat split; reflexivity. }
+  intros W. destruct W as [x W|x W|x W|x W].
+  - destruct W as [s d n vs ds o Hs Hd Hn Hvs Hds Ho].
+    cbn [toks_definition toks_operation is_shorthand_operation].
+    destruct (is_shorthand d n vs ds o) eqn:Esh.
+    + destruct (toks_selection_set_cons s Hs) as [tl ->]. repeat split; try reflexivity. discriminate.
+    + norm. destruct (D d (op_name o) (toks_opt toks_name n ++ toks_variable_definitions vs ++ toks_directives ds ++
+                                       toks_selection_set s ++ r) Hd) as (D1 & D2 & D3 & D4).
+      { destruct Ho as [-> | [-> | ->]]; reflexivity. }
+      repeat split; auto.
+  - destruct W as [s d n vs ds tc Hs Hd Hn Hvs Hds Htc]. cbn [toks_definition]. rewrite toks_fragdef. norm.
+    destruct (D d s_fragment (toks_name n ++ toks_variable_definitions vs ++ nm s_on :: toks_type tc ++
+                              toks_directives ds ++ toks_selection_set s ++ r) Hd eq_refl) as (D1 & D2 & D3 & D4).
+    repeat split; auto.
+  - destruct W as [d ds ots Hd Hds Hots|n d ds Hn Hd Hds|n d ds i f Hn Hd Hds Hi Hfd|n d ds i f Hn Hd Hds Hi Hfd
+                  |n d ds ts Hn Hd Hds Hts|n d ds vs Hn Hd Hds Hvs|n d ds f Hn Hd Hds Hfd|n ls d a ds rp Hn Hls Hd Ha Hds];
+      try (destruct Hls as [lx ll Hlx Hll]; rewrite ?toks_directive_def);
+      cbn [toks_definition toks_type_system]; rewrite ?toks_directive_def; norm;
+      match goal with
+      | |- dstart (tok_at (toks_description ?d ++ nm ?kw :: ?rest)) = true /\ _ =>
+        destruct (D d kw rest Hd eq_refl) as (D1 & D2 & D3 & D4); repeat split; auto
+      end.
+  - destruct W; cbn [toks_definition toks_extension]; norm; repeat split; reflexivity.
+Qed.
+
+(* first token of the rest of the document *)
+Lemma definitions_head pb defs v r : Forall (wf_definition xfa xdd) defs ->
+  dstart (tok_at (toks_definitions pb defs ++ (K_EOF, v) :: r)) = true /\
+  (kind_at (toks_definitions pb defs ++ (K_EOF, v) :: r) =? K_LEXERR)%N = false /\
+  (pb = false -> (kind_at (toks_definitions pb defs ++ (K_EOF, v) :: r) =? K_BRACE_L)%N = false).
+Proof.
+  intros [|x l Hx Hl]; [repeat split; reflexivity|].
+  cbn [toks_definitions]. norm.
+  destruct (definition_head x (toks_definitions (ends_with_block x) l ++ (K_EOF, v) :: r) Hx) as (D1 & D2 & D3 & D4).
+  destruct (negb pb && is_shorthand_operation x) eqn:E.
+  - cbn [app]. repeat split; reflexivity.
+  - cbn [app]. repeat split; auto. intros ->. cbn [negb andb] in E. apply D4. exact E.
+Qed.
+
+Lemma rt_definitions defs : Forall (wf_definition xfa xdd) defs -> forall pb g v r, length defs < g ->
+  run (until_close 0 g K_EOF (definition 0 xfa xdd)) (toks_definitions pb defs ++ (K_EOF, v) :: r)
+      defs ((K_EOF, v) :: r).
+Proof.
+  induction 1 as [|x l Hx Hl IH]; intros pb g v r Hg; (destruct g as [|g]; [cbn in Hg; lia|]).
+  - cbn [toks_definitions app until_close]. eapply run_bind; [apply run_eot_eof|]. apply run_ret.
+  - cbn [toks_definitions until_close]. norm.
+    destruct (definition_head x (toks_definitions (ends_with_block x) l ++ (K_EOF, v) :: r) Hx) as (D1 & D2 & D3 & D4).
+    destruct (definitions_head (ends_with_block x) l v r Hl) as (T1 & T2 & T3).
+    assert (Hnle : hk nle (toks_definitions (ends_with_block x) l ++ (K_EOF, v) :: r)).
+    { unfold hk, nle, nk. cbn [existsb]. unfold kind_at in T2. rewrite T2. reflexivity. }
+    destruct (negb pb && is_shorthand_operation x) eqn:E.
+    + cbn [app].
+      eapply run_bind; [apply run_eot_no; reflexivity|]. cbv iota.
+      apply andb_true_iff in E as [_ E].
+      eapply run_bind; [apply rt_definition_query; [exact Hx|exact E|exact Hnle]|].
+      eapply run_bind; [apply IH; cbn in Hg; lia|]. apply run_ret.
+    + cbn [app].
+      eapply run_bind; [apply run_eot_no; exact D2|]. cbv iota.
+      eapply run_bind.
+      { apply rt_definition; [exact Hx|]. split; [exact T1|]. intros Hb. apply T3. exact Hb. }
+      eapply run_bind; [apply IH; cbn in Hg; lia|]. apply run_ret.
+Qed.
+
+Lemma definitions_length pb defs : Forall (wf_definition xfa xdd) defs ->
+  length defs <= length (toks_definitions pb defs).
+Proof.
+  intros H. revert pb. induction H as [|x l Hx Hl IH]; intros pb; [cbn; lia|].
+  cbn [toks_definitions length]. rewrite !app_length. specialize (IH (ends_with_block x)).
+  destruct (definition_head x [] Hx) as (_ & D2 & _). rewrite app_nil_r in D2.
+  destruct (toks_definition x); [discriminate D2|]. cbn [length]. lia.
+Qed.
+
+(* ---------- the document ---------- *)
+Theorem rt_document d v r : wf_document xfa xdd d ->
+  run (document 0 xfa xdd) (sof_tok :: toks_document d ++ (K_EOF, v) :: r) d ((K_EOF, v) :: r).
+Proof.
+  intros [x l Hx Hl]. cbn [toks_document toks_definitions]. cbn [negb andb app]. unfold document.
+  eapply run_bind; [|apply run_ret]. unfold many. norm.
+  destruct (definition_head x (toks_definitions (ends_with_block x) l ++ (K_EOF, v) :: r) Hx) as (D1 & D2 & D3 & D4).
+  destruct (definitions_head (ends_with_block x) l v r Hl) as (T1 & T2 & T3).
+  eapply run_bind.
+  { apply run_expect_token; [reflexivity|]. unfold hk, nle, nk. cbn [existsb]. unfold kind_at in D3. rewrite D3. reflexivity. }
+  eapply run_bind.
+  { apply rt_definition; [exact Hx|]. split; [exact T1|]. intros Hb. apply T3. exact Hb. }
+  eapply run_bind; [|apply run_ret].
+  unfold loop_close. apply run_with_fuel. apply rt_definitions; [exact Hl|].
+  rewrite app_length. pose proof (definitions_length (ends_with_block x) l Hl). lia.
+Qed.
+
+End Executable.
+
+(* ---------- the other entry points ---------- *)
+Lemma rt_value_entry c x v r : wf_value c x ->
+  run (value_entry 0 c) (sof_tok :: toks_value x ++ (K_EOF, v) :: r) x ((K_EOF, v) :: r).
+Proof.
+  intros W. unfold value_entry, enter.
+  eapply run_bind; [apply run_expect_token; [reflexivity|eapply hk_value_nk; [exact W|reflexivity]]|].
+  eapply run_bind; [apply rt_value_literal; [exact W|reflexivity]|].
+  eapply run_bind; [apply run_expect_eof|]. apply run_ret.
+Qed.
+
+Lemma rt_type_entry x v r : wf_type x ->
+  run (type_entry 0) (sof_tok :: toks_type x ++ (K_EOF, v) :: r) x ((K_EOF, v) :: r).
+Proof.
+  intros W. unfold type_entry, enter.
+  eapply run_bind; [apply run_expect_token; [reflexivity|apply hk_type_nk; [exact W|reflexivity]]|].
+  eapply run_bind; [apply rt_type_reference; [exact W|reflexivity]|].
+  eapply run_bind; [apply run_expect_eof|]. apply run_ret.
+Qed.
+
+Lemma rt_coordinate_entry x v r : wf_coordinate x ->
+  run (coordinate_entry 0) (sof_tok :: toks_coordinate x ++ (K_EOF, v) :: r) x ((K_EOF, v) :: r).
+Proof.
+  intros W. destruct W as [n [nv]|n m [nv] [mv]|n m a [nv] [mv] [av]|n [nv]|n a [nv] [av]]; reflexivity.
+Qed.
+
+Lemma tokens_of_wf e xfa xdd x : wf_ast e xfa xdd x ->
+  tokens_of x = match e with
+                | EDocument => toks_document x
+                | EValue | EConstValue => toks_value x
+                | EType => toks_type x
+                | ECoordinate => toks_coordinate x
+                end.
+Proof.
+  destruct e; cbn [wf_ast]; intros W.
+  - destruct W. reflexivity.
+  - destruct W; reflexivity.
+  - destruct W; reflexivity.
+  - destruct W; reflexivity.
+  - destruct W; reflexivity.
+Qed.
+
+Theorem core_roundtrip e xfa xdd x v r : wf_ast e xfa xdd x ->
+  core e 0 xfa xdd (sof_tok :: tokens_of x ++ (K_EOF, v) :: r) = ROk x ((K_EOF, v) :: r).
+Proof.
+  intros W. rewrite (tokens_of_wf e xfa xdd x W). destruct e; cbn [core wf_ast] in *.
+  - apply rt_document. exact W.
+  - apply rt_value_entry. exact W.
+  - apply rt_value_entry. exact W.
+  - apply rt_type_entry. exact W.
+  - apply rt_coordinate_entry. exact W.
+Qed.
+
+(* the round trip for the entry points on token lists: positions are irrelevant *)
+Theorem parse_entry_roundtrip e o ts x v :
+  max_tokens o = None ->
+  wf_ast e (exp_fragment_arguments o) (exp_directives_on_directive_definitions o) x ->
+  map sig ts = tokens_of x ++ [(K_EOF, v)] ->
+  parse_entry e o ts = Ok (x, length (tokens_of x)).
+Proof.
+  intros Hm W E. unfold parse_entry, floor_of. rewrite Hm, E.
+  rewrite (core_roundtrip e _ _ x v [] W). rewrite app_length. cbn [length]. f_equal. f_equal. lia.
 Qed.
